@@ -7,6 +7,10 @@ from ..sym import Poly
 from ..core import AnalysisError
 from ..rules import gen_c1419 as G
 from ..rules import dim_c1419 as D
+from ..rules import hi_exec as X
+from ..rules import hi_conn as C
+from ..rules import hi_flow as F
+from ..rules.hi_conn import GenSpec
 from .c14 import dim_obligations
 
 SAMP, BEZ, AABB = "sampling", "splines.bezier", "geometry.aabb"
@@ -16,43 +20,48 @@ EXPLANATION = (
     "(length-degree, affine weight, must-dependence, array shape) of each sampler decides that sums are dimensionally homogeneous, "
     "that the returned coordinates have degree 1, are translated with the centre / box and depend on every geometric parameter on "
     "every path (one run per sampling mode), and that the returned array has n_pts rows which the fill loop covers (R-DIM, count). "
-    "Barycentric combinations are converted to polynomial forms: the weights of the points sum to 1 identically and are "
-    "non-negative on the unit box of the random draws. Control points are consumed only through de_casteljau, whose range guard is "
-    "compared with `t<0 or t>1` under every ordering of (t,0,1), precedes all uses of t, and which works on a fresh copy whose "
-    "entries are only rebound. BezierPatch.as_surface is walked symbolically: row stride = inner trip, indices in [0,|V|), "
-    "attribute key = running vertex index, counts (R-STRIDE/R-RANGE/R-COUNT, alarms with concrete witness only). "
+    "Data-flow rules read the definitions that reach a use through every binding form (assignments, unpacking, in-place updates, "
+    "walrus, branches, loop / comprehension / zip targets), so loop and vectorised spellings give the same tree: barycentric "
+    "combinations are converted to polynomial forms (weights sum to 1 identically, non-negative on the unit box of the draws), the "
+    "combined vertices are those of the drawn element, the draw weights are length / area of the current geometry divided by their "
+    "own sum. Control points are consumed only through de_casteljau, whose range guard is compared with `t<0 or t>1` under every "
+    "ordering of (t,0,1) and which never writes through its argument. BezierPatch.as_surface is evaluated over its index domain for "
+    "small unequal resolutions and the generated tables are checked (range, grid topology, counts, uv association). "
     "Distributions, hull containment and Bernstein equality are not decided.")
 
 RULES = {
     "C19-D1": "sampler coordinates: every sum is homogeneous in length, the result has degree 1 and affine weight 1 and depends on "
               "centre / radius / box position and extent on every path and in every mode; AABB.span == maxi - mini",
     "C19-N1": "every array returned by a sampler has n_pts rows (leading dimension derived through the allocation, stacking, "
-              "transposition and broadcasting) and the loop that fills it row by row runs over n_pts items",
+              "transposition, indexing and broadcasting) and the loop that fills it row by row runs over n_pts items",
     "C19-B1": "in a barycentric combination the coefficients of the points sum to 1 identically and there is no free term; "
-              "de_casteljau blends entry i+1 with weight t and entry i with weight 1-t into entry i",
+              "de_casteljau blends the next entry with weight t and the current entry with weight 1-t",
     "C19-B2": "the barycentric coefficients are non-negative at every corner of the unit box of the random draws "
               "(the sample lies in the edge / face)",
-    "C19-F1": "the vertices combined for sample i are those of the element drawn for sample i (loop value of the choice array, "
-              "container edges / faces of the sampled mesh); returned normals are face_normals indexed by the same drawn faces",
-    "C19-W1": "elements are drawn by choice(len(container), size=n_pts, p=w) where w is edge_length / face_area of the sampled mesh "
-              "divided by its own sum (share of samples follows length / area)",
+    "C19-F1": "the vertices combined for a sample are those of the element drawn for it (row of edges / faces of the sampled mesh "
+              "selected by the drawn value, never by the sample counter); returned normals are face_normals of the same drawn faces",
+    "C19-W1": "elements are drawn by choice(len(container), ..., p=w / sum(w)): population = number of elements of the sampled "
+              "container, weights present and divided by their own sum",
     "C19-W2": "every definition of the draw weights that can reach choice(...) is computed in the same call from "
-              "edge_length(mesh) / face_area(mesh) (possibly normalised); weights are never read back from a stored attribute, "
+              "edge_length(mesh) / face_area(mesh); weights are never read back from a stored attribute, "
               "which would be stale after the vertices moved",
     "C19-E1": "AABB.is_empty is the per-axis predicate `some axis has mini >= maxi` (decided by evaluating its expression on every "
               "box with coordinates in {0,1,2}, dimensions 1-3), and sample_AABB raises on an empty box at the top level, before "
               "any mode branch or draw",
-    "C19-G1": "control points are read only as arguments of de_casteljau (or for their count); evaluation methods return "
+    "C19-G1": "control points are never operands of arithmetic outside de_casteljau; evaluation methods return "
               "de_casteljau results and forward their own parameters; the range guard of de_casteljau is `t<0 or t>1`, raises, "
-              "precedes every use of t; the blend works on a fresh copy of the control list whose entries are only rebound",
-    "C19-S1": "BezierPatch.as_surface: coefficient of the row variable in every face index equals the inner trip count; all indices "
-              "in [0,|V|); the uv attribute key equals the index of the vertex just appended; |V| = n1*n2, (n1-1)(n2-1) quads; "
-              "parameter samples are indexed over their whole linspace",
+              "precedes every rebinding of t; de_casteljau never stores through (an alias of) its argument, never updates an entry "
+              "of a shallow copy in place, and a blend stored in place goes to a float array",
+    "C19-P1": "sample_AABB, grid mode: the per-axis resolution handed to linspace is the *rounded* dim-th root of n_pts (the number of "
+              "points is the nearest perfect power), not its truncation or ceiling",
+    "C19-S1": "BezierPatch.as_surface (evaluated for small unequal resolutions): all indices in [0,|V|), the faces form a consistently "
+              "oriented disk, |V| = n1*n2, (n1-1)(n2-1) quads, the uv attribute key addresses the vertex evaluated at the same "
+              "parameters, parameter samples are consumed over their whole linspace",
 }
 
 ASSUMPTIONS = [
     "sample_AABB modes are the literals listed in its check_argument call; grid-mode row count (nearest perfect power) is not decided",
-    "as_surface resolutions n1, n2 >= 2",
+    "as_surface resolutions n1, n2 in [2, 5] (bounded evaluation)",
 ]
 
 SAMPLERS = {
@@ -62,39 +71,17 @@ SAMPLERS = {
     "sample_surface": {"geo": {}, "require": ["mesh"]},
 }
 BOX_GEO = {"box.mini": (1, 1), "box.maxi": (1, 1), "box.center": (1, 1), "box.span": (1, 0)}
-
-
-def _res(b, expr, at=None, keep=()):
-    return G.fast_resolve(b, expr, at, keep)
-
-
-_LOST = set()
-
-
-def _floor(ctx, rule, label, n, at_least):
-    """fail closed on a vacuous pass - unless the rule already reported a lost construct as a finding"""
-    if rule in _LOST or n >= at_least:
-        return
-    # the anchored functions exist (repo.func raised otherwise) but the rule recognises fewer sites than were confirmed by
-    # hand: the protected constructs changed shape - a finding, not an analysis error
-    ctx.fail(rule, ctx.site(SAMP, "<module>"), f"{label}: the constructs protected by {rule} are no longer found in a recognisable form",
-             f"{n} site(s) recognised, at least {at_least} were confirmed by hand")
-
-
-def _lost(ctx, rule, site, construct, what):
-    _LOST.add(rule)
-    ctx.fail(rule, site, construct, what)
+ELEMENT = (("sample_polyline", "edges", "edge_length"), ("sample_surface", "faces", "face_area"))
 
 
 def run(ctx):
-    _LOST.clear()
     d1_n1_samplers(ctx)
     aabb_accessors(ctx)
     b1_barycentric(ctx)
     f1_drawn_element(ctx)
-    w1_probabilities(ctx)
-    w2_fresh_weights(ctx)
+    w_weights(ctx)
     e1_empty_box(ctx)
+    p1_grid_resolution(ctx)
     g1_de_casteljau(ctx)
     s1_as_surface(ctx)
     ctx.repo.func(BEZ, "BezierCurve.as_polyline")
@@ -102,6 +89,7 @@ def run(ctx):
                             "the vertex count from n_pts (no index rule applied; evaluation path covered by C19-G1)")
     ctx.declare_unsupported("sample_AABB(mode='grid'): number of rows res**dim (nearest perfect power) is not decided")
     ctx.declare_unsupported("statistical behaviour of the draws (numpy choice / random) is trusted, only the wiring of the weights is decided")
+    ctx.declare_unsupported("BezierPatch.as_surface is decided for resolutions in [2, 5] only (bounded evaluation)")
 
 
 # ----------------------------------------------------------------------- C19-D1 / C19-N1
@@ -113,34 +101,47 @@ def n1_obligations(ctx, key, fn, it, label=""):
             tgt = x.verts if x.verts is not None else x
             if tgt.shape is None or not tgt.shape or tgt.shape[0] is None:
                 continue
+            rows = tgt.shape[0]
+            if isinstance(rows, Poly) and rows.is_zero():
+                continue        # an empty result answered up front (n_pts == 0 ...)
             n += 1
-            ctx.check(D.same_dim(tgt.shape[0], npts), "C19-N1", ctx.site(key[0], fn, node),
-                      f"{key[1]}{label} returns `{tgt.shape[0]}` rows instead of n_pts",
-                      f"`{au.src(node)[:100]}`: leading dimension derived from the allocation is {tgt.shape[0]}",
+            alts = sorted(rows, key=str) if isinstance(rows, D.AltDim) else [rows]
+            vague = lambda x: not isinstance(x, Poly) or any("@" in a or (a.startswith("⟨") and "n_pts" in a) for a in x.atoms())
+            if any(vague(x) for x in alts) and not all(D.same_dim(x, npts) for x in alts):
+                ctx.undecided("C19-N1", ctx.site(key[0], fn, node), f"row count of an array returned by {key[1]}{label} is not comparable with n_pts",
+                              f"leading dimension `{rows}`")
+                continue
+            ctx.check(all(D.same_dim(x, npts) for x in alts), "C19-N1", ctx.site(key[0], fn, node),
+                      f"{key[1]}{label} returns `{rows}` rows instead of n_pts",
+                      f"`{au.src(node)[:100]}`: leading dimension derived from the allocation is {rows}",
                       note=f"{key[1]}{label}: returned rows = n_pts")
     for node, rows, trip, name in it.fills:
         if rows is None or trip is None:
             continue
+        alts = sorted(trip, key=str) if isinstance(trip, D.AltDim) else [trip]
+        ralts = sorted(rows, key=str) if isinstance(rows, D.AltDim) else [rows]
+        vague = lambda x: not isinstance(x, Poly) or any("@" in a or (a.startswith("⟨") and "n_pts" in a) for a in x.atoms())
+        if any(vague(x) for x in alts + ralts):
+            continue
         n += 1
-        ctx.check(D.same_dim(rows, trip) and D.same_dim(rows, npts), "C19-N1", ctx.site(key[0], fn, node),
-                  f"{key[1]}: the loop filling `{name}` visits `{trip}` rows of `{rows}`",
+        good = all(a == r for a in alts for r in ralts) and all(r == npts for r in ralts)
+        ctx.check(good, "C19-N1", ctx.site(key[0], fn, node),
+                  f"{key[1]}: the loop filling an array of `{rows}` rows visits `{trip}` of them",
                   "rows that the loop does not reach keep their initial value (zeros): fewer than n_pts samples",
                   note=f"{key[1]}: fill loop covers {rows} rows")
     return n
 
 
 def d1_n1_samplers(ctx):
-    nd = nn = 0
     for name, spec in SAMPLERS.items():
         key = (SAMP, name)
         fn = ctx.repo.func(*key)
         it = D.Interp(fn, D.Config(spec["geo"], ctx.repo, SAMP)).run()
-        nd += dim_obligations(ctx, "C19-D1", key, fn, it, spec["geo"], require=spec["require"])
+        dim_obligations(ctx, "C19-D1", key, fn, it, spec["geo"], require=spec["require"])
         k = n1_obligations(ctx, key, fn, it)
         if k == 0:
-            _lost(ctx, "C19-N1", ctx.site(SAMP, fn), f"row count of the array returned by {name} is not derivable",
-                  "no returned value has a leading dimension the shape domain can follow")
-        nn += k
+            ctx.undecided("C19-N1", ctx.site(SAMP, fn), f"row count of the array returned by {name} is not derivable",
+                          "no returned value has a leading dimension the shape domain can follow")
     # sample_AABB: one run per mode
     key = (SAMP, "sample_AABB")
     fn = ctx.repo.func(*key)
@@ -150,93 +151,263 @@ def d1_n1_samplers(ctx):
         if au.call_tail(c) == "check_argument" and len(c.args) >= 4 and au.src(c.args[1]) == "mode":
             modes = au.literal(c.args[3])
     if not modes or "mode" not in au.params(fn):
-        _lost(ctx, "C19-D1", site, "list of sampling modes of sample_AABB not found",
-                 "check_argument('mode', mode, str, [...]) gives the modes to analyse")
+        ctx.undecided("C19-D1", site, "list of sampling modes of sample_AABB not found",
+                      "check_argument('mode', mode, str, [...]) gives the modes to analyse")
         modes = []
     for mode in modes:
         it = D.Interp(fn, D.Config(BOX_GEO, ctx.repo, SAMP, consts={"mode": mode})).run()
-        nd += dim_obligations(ctx, "C19-D1", key, fn, it, BOX_GEO, require=[])
+        dim_obligations(ctx, "C19-D1", key, fn, it, BOX_GEO, require=[])
         # the box must reach the result: position and extent
         finals = []
         for node, v in it.returns:
             finals.append((node, v.verts if v.verts is not None else v))
-        nd += 1
-        bad = None
+        bad = unknown = None
         for node, v in finals:
-            deps = v.deps or frozenset()
-            pos = deps & {"box.mini", "box.maxi", "box.center"}
-            two = deps & set(BOX_GEO)
+            if v.deps is None:
+                unknown = unknown or node
+                continue
+            pos = v.deps & {"box.mini", "box.maxi", "box.center"}
+            two = v.deps & set(BOX_GEO)
             if not pos or len(two) < 2:
-                bad = (node, sorted(two))
-                break
+                if v.opaque or v.deg is None:
+                    unknown = unknown or node
+                else:
+                    bad = bad or (node, sorted(two))
         if not finals:
-            ctx.fail("C19-D1", site, f"sample_AABB(mode='{mode}') returns nothing", "")
+            ctx.undecided("C19-D1", site, f"sample_AABB(mode='{mode}') returns nothing the analysis can read", "")
         elif bad:
             ctx.fail("C19-D1", ctx.site(SAMP, fn, bad[0]),
                      f"the points returned by sample_AABB(mode='{mode}') do not depend on the position and extent of the box",
                      f"of the box, {' and '.join(bad[1]) if bad[1] else 'nothing'} reaches the result: the samples stay in a fixed cube whatever box is given "
                      f"(e.g. AABB([2,2],[3,4]) still yields points of [0,1]^2)")
+        elif unknown is not None:
+            ctx.undecided("C19-D1", ctx.site(SAMP, fn, unknown), f"dependence of sample_AABB(mode='{mode}') on the box is not derivable", "")
         else:
             ctx.ok("C19-D1", site, f"sample_AABB(mode='{mode}'): box position and extent reach the result")
         if mode != "grid":
             k = n1_obligations(ctx, key, fn, it, f"(mode='{mode}')")
             if k == 0:
-                _lost(ctx, "C19-N1", site, f"row count of sample_AABB(mode='{mode}') is not derivable", "")
-            nn += k
-    _floor(ctx, "C19-D1", "C19-D1 obligations", nd, 22)
-    _floor(ctx, "C19-N1", "C19-N1 obligations", nn, 12)
+                ctx.undecided("C19-N1", site, f"row count of sample_AABB(mode='{mode}') is not derivable", "")
 
 
 def aabb_accessors(ctx):
     """`mini + span * u` spans the box iff span == maxi - mini."""
     rets = {}
+    helpers = _aabb_helpers(ctx)
     for name in ("mini", "maxi", "span"):
         fn = ctx.repo.func(AABB, "AABB." + name)
-        r = [st.value for st in au.stmts(fn.body) if isinstance(st, ast.Return) and st.value is not None]
+        fl = F.Flow(fn)
+        r = [as_operators(inline_self(fl.resolve(st.value, at=st), helpers)) for st in au.stmts(fn.body) if isinstance(st, ast.Return) and st.value is not None]
         rets[name] = (fn, r[0] if len(r) == 1 else None)
     fn, span = rets["span"]
     site = ctx.site(AABB, fn)
     if any(v[1] is None for v in rets.values()):
-        ctx.fail("C19-D1", site, "AABB.mini / maxi / span are no longer single-return accessors", "")
+        ctx.undecided("C19-D1", site, "AABB.mini / maxi / span are no longer single-return accessors", "")
         return
+    props = _aabb_props(ctx)
+
+    def poly(e):
+        def atom_of(n):
+            if isinstance(n, ast.Attribute) and isinstance(n.value, ast.Name) and n.value.id == "self":
+                if n.attr in ("mini", "maxi") and n.attr in props:
+                    return poly(props[n.attr])
+                return au.src(n)
+            if isinstance(n, ast.Call) and au.call_tail(n) in ("Vec", "array", "asarray") and len(n.args) == 1:
+                return poly(n.args[0])
+            return None
+        return sym.to_poly(e, atom_of)
     try:
-        ok = sym.to_poly(span, lambda n: au.src(n) if isinstance(n, ast.Attribute) else None) == \
-            sym.to_poly(rets["maxi"][1], lambda n: au.src(n) if isinstance(n, ast.Attribute) else None) - \
-            sym.to_poly(rets["mini"][1], lambda n: au.src(n) if isinstance(n, ast.Attribute) else None)
+        lhs, rhs = poly(span), poly(rets["maxi"][1]) - poly(rets["mini"][1])
     except Exception:
-        ok = False
-    ctx.check(ok, "C19-D1", site, f"AABB.span returns `{au.src(span)}` which is not maxi - mini",
+        ctx.undecided("C19-D1", site, "AABB.span is not an arithmetic form of the two corners", au.src(span))
+        return
+    if any(a.startswith("⟨") for a in lhs.atoms() | rhs.atoms()):
+        ctx.undecided("C19-D1", site, "AABB.span is not an arithmetic form of the two corners", au.src(span))
+        return
+    ctx.check(lhs == rhs, "C19-D1", site, f"AABB.span returns `{lhs}` which is not maxi - mini",
               "sample_AABB maps the unit cube by mini + span*u; with another span the samples leave the box",
               note="AABB.span == maxi - mini")
 
 
-# ----------------------------------------------------------------------- C19-B1 / B2
-def _unit_atoms(fn, b, expr_names):
-    """names bound to draws of [0,1): `x = random()` / `a, b = random(2)` / np.random.random()"""
-    out = set()
-    for st in au.stmts(fn.body):
-        if isinstance(st, ast.Assign) and isinstance(st.value, ast.Call) and au.call_tail(st.value) in ("random", "random_sample", "rand") \
-                and not any(k.arg in ("low", "high") for k in st.value.keywords):
-            for t in st.targets:
-                out |= set(au.assigned_names(t))
+def _aabb_props(ctx):
+    """single-return properties and zero-argument helper methods of AABB: name -> returned expression (helper calls inlined)"""
+    cls = ctx.repo.cls(AABB, "AABB")
+    props, helpers = {}, {}
+    for m in cls.body:
+        if not isinstance(m, ast.FunctionDef) or m.name.startswith("__"):
+            continue
+        is_prop = any(isinstance(d, ast.Name) and d.id == "property" for d in m.decorator_list)
+        if not is_prop and (len(au.params(m, skip_self=True)) > 0 or m.decorator_list):
+            continue
+        fl = F.Flow(m)
+        r = [fl.resolve(st.value, at=st) for st in au.stmts(m.body) if isinstance(st, ast.Return) and st.value is not None]
+        if len(r) == 1:
+            (props if is_prop else helpers)[m.name] = r[0]
+    for _ in range(3):
+        helpers = {k: inline_self(v, helpers) for k, v in helpers.items()}
+    return {k: as_operators(inline_self(v, helpers)) for k, v in props.items()}
+
+
+def inline_self(e, helpers):
+    """`self.h()` -> the expression h returns;  `(a, b)[k]` -> its k-th element"""
+    class T(ast.NodeTransformer):
+        def visit_Call(self, node):
+            self.generic_visit(node)
+            if isinstance(node.func, ast.Attribute) and isinstance(node.func.value, ast.Name) and node.func.value.id == "self" \
+                    and not node.args and not node.keywords and node.func.attr in helpers:
+                return F.clone(helpers[node.func.attr])
+            return node
+
+        def visit_Subscript(self, node):
+            self.generic_visit(node)
+            k = au.const(node.slice)
+            if isinstance(node.value, (ast.Tuple, ast.List)) and isinstance(k, int) and not isinstance(k, bool) and -len(node.value.elts) <= k < len(node.value.elts):
+                return node.value.elts[k]
+            return node
+    return T().visit(F.clone(e)) if e is not None else None
+
+
+def _aabb_helpers(ctx):
+    cls = ctx.repo.cls(AABB, "AABB")
+    helpers = {}
+    for m in cls.body:
+        if isinstance(m, ast.FunctionDef) and not m.name.startswith("__") and not m.decorator_list and not au.params(m, skip_self=True):
+            fl = F.Flow(m)
+            r = [fl.resolve(st.value, at=st) for st in au.stmts(m.body) if isinstance(st, ast.Return) and st.value is not None]
+            if len(r) == 1:
+                helpers[m.name] = r[0]
+    for _ in range(3):
+        helpers = {k: inline_self(v, helpers) for k, v in helpers.items()}
+    return helpers
+
+
+# ----------------------------------------------------------------------- shared readers (role based)
+CONVERT = ("asarray", "array", "asanyarray", "ascontiguousarray", "list", "tuple", "as_array", "copy", "astype", "asfarray", "reshape",
+           "view", "squeeze", "atleast_2d", "float64", "tolist")
+
+
+def _strip_data(e):
+    """peel array conversions and the `._data` accessor of a container"""
+    while True:
+        e2 = F.strip_calls(e, CONVERT)
+        if isinstance(e2, ast.Attribute) and e2.attr == "_data":
+            e2 = e2.value
+        if e2 is e:
+            return e
+        e = e2
+
+
+KNOWN_CONTAINERS = ("vertices", "edges", "faces", "cells", "face_corners", "cell_corners")
+
+
+def _container_of(e, mesh_p):
+    """`mesh.K` (possibly converted) for an element container K -> K, else None"""
+    e = _strip_data(e)
+    if isinstance(e, ast.Attribute) and isinstance(e.value, ast.Name) and e.value.id == mesh_p and e.attr in KNOWN_CONTAINERS:
+        return e.attr
+    return None
+
+
+def _vertex_reads(e, mesh_p):
+    """Subscript nodes of a resolved expression that read vertex coordinates of the sampled mesh"""
+    return [n for n in ast.walk(e) if isinstance(n, ast.Subscript) and _container_of(n.value, mesh_p) == "vertices"]
+
+
+def _is_point(n, mesh_p):
+    """a (possibly further sliced) read of vertex coordinates: `V[idx]`, `V[idx][:, k]` with V the vertex array of the mesh"""
+    if not isinstance(n, ast.Subscript):
+        return False
+    b = n
+    while isinstance(b, ast.Subscript):
+        if _container_of(b.value, mesh_p) == "vertices":
+            return True
+        b = b.value
+    return False
+
+
+def _points(e, mesh_p):
+    """outermost point reads of an expression"""
+    out, todo = [], [e]
+    while todo:
+        n = todo.pop()
+        if _is_point(n, mesh_p):
+            out.append(n)
+            continue
+        todo.extend(ast.iter_child_nodes(n))
     return out
 
 
-def bary_check(ctx, modname, fn, st, expr, point_pred, unit_names, label, extra_unit=()):
-    """expr: the (resolved) combination.  Returns the weights dict or None."""
+DRAWS = ("random", "random_sample", "rand", "uniform")
+
+
+def _is_draw(e):
+    if isinstance(e, ast.Call) and au.call_tail(e) in DRAWS:
+        if au.call_tail(e) == "uniform":
+            lo = e.args[0] if e.args else next((k.value for k in e.keywords if k.arg == "low"), ast.Constant(0))
+            hi = e.args[1] if len(e.args) > 1 else next((k.value for k in e.keywords if k.arg == "high"), ast.Constant(1))
+            return au.const(lo) == 0 and au.const(hi) == 1
+        return not any(k.arg in ("low", "high") for k in e.keywords)
+    return False
+
+
+def _unit_names(fn):
+    """names bound (directly or by unpacking) to draws of [0,1)"""
+    out = set()
+    for st in au.stmts(fn.body):
+        if isinstance(st, ast.Assign) and _is_draw(st.value):
+            for t in st.targets:
+                out |= set(au.assigned_names(t))
+    for n in au.walk(fn):
+        if isinstance(n, ast.NamedExpr) and _is_draw(n.value):
+            out.add(n.target.id)
+    return out
+
+
+def _strip_broadcast(e):
+    """`x[:, None]`, `x[:, np.newaxis]`, `x[..., None]`, `x.reshape(-1, 1)`, `x.reshape((n, 1))` -> x"""
+    while True:
+        if isinstance(e, ast.Subscript) and isinstance(e.slice, ast.Tuple) and e.slice.elts:
+            last = e.slice.elts[-1]
+            isnew = (isinstance(last, ast.Constant) and last.value is None) or (isinstance(last, ast.Attribute) and last.attr == "newaxis")
+            rest = e.slice.elts[:-1]
+            if isnew and all((isinstance(x, ast.Slice) and x.lower is None and x.upper is None) or (isinstance(x, ast.Constant) and x.value is Ellipsis)
+                             for x in rest):
+                e = e.value
+                continue
+        if isinstance(e, ast.Call) and au.call_tail(e) == "reshape" and isinstance(e.func, ast.Attribute) and e.args:
+            shp = e.args[0].elts if len(e.args) == 1 and isinstance(e.args[0], (ast.Tuple, ast.List)) else e.args
+            if len(shp) == 2 and au.const(shp[1]) == 1:
+                e = e.func.value
+                continue
+        return e
+
+
+# ----------------------------------------------------------------------- C19-B1 / B2
+def bary_check(ctx, modname, fn, st, expr, point_key, unit_pred, label, weights_spec=None):
+    """expr: the resolved combination.  point_key(node) -> text naming a point atom (or None).
+    Returns the weights dict {point: Poly} or None."""
     site = ctx.site(modname, fn, st)
+    pts_seen = {}
 
     def atom_of(n):
+        n2 = _strip_broadcast(n)
+        if n2 is not n:
+            return sym.to_poly(n2, atom_of)
+        k = point_key(n)
+        if k is not None:
+            pts_seen[k] = n
+            return k
         if isinstance(n, ast.Subscript):
-            return au.src(n)
+            return "⟦" + au.src(n) + "⟧"
         if isinstance(n, ast.Call):
             return "⟨" + au.src(n) + "⟩"
         return None
     P = sym.to_poly(expr, atom_of)
-    pts = sorted(a for a in P.atoms() if point_pred(a))
-    if len(pts) < 2:
-        _lost(ctx, "C19-B1", site, f"{label}: barycentric combination of the points not found",
-                 f"`{au.src(expr)}` does not combine at least two points")
+    pts = sorted(pts_seen)
+    hidden = [a for a in P.atoms() if a not in pts_seen and any(p.strip("⟦⟧") in a for p in pts)]
+    if len(pts) < 2 or hidden:
+        ctx.undecided("C19-B1", site, f"{label}: barycentric combination of the points not found",
+                      f"`{au.src(expr)[:160]}` does not combine at least two points arithmetically")
         return None
     weights = {}
     rest = P
@@ -245,7 +416,7 @@ def bary_check(ctx, modname, fn, st, expr, point_pred, unit_names, label, extra_
         if P.degree_in(p) != 1:
             ok = False
         w = P.coeff(p)
-        if any(point_pred(a) for a in w.atoms()):
+        if any(a in pts_seen for a in w.atoms()):
             ok = False
         weights[p] = w
         rest = rest - w * Poly.atom(p)
@@ -253,23 +424,27 @@ def bary_check(ctx, modname, fn, st, expr, point_pred, unit_names, label, extra_
     for w in weights.values():
         total = total + w
     good = ok and rest.is_zero() and total == Poly.const(1)
+    if not good:
+        scal_all = set(rest.atoms()) | set((total - 1).atoms())
+        for w in weights.values():
+            scal_all |= set(w.atoms())
+        strange = sorted(a for a in scal_all if a not in pts_seen and not unit_pred(a))
+        if strange or not ok:
+            ctx.undecided("C19-B1", site, f"{label}: the weights of the combined points are not made of the random draws only",
+                          f"`{au.src(expr)[:160]}`: {strange[:4]} cannot be followed")
+            return None
     ctx.check(good, "C19-B1", site,
               f"{label}: the coefficients of the combined points sum to `{total}`" + ("" if rest.is_zero() else f" with free term `{rest}`") + ", not identically 1",
-              f"`{au.src(expr)}` = " + " + ".join(f"({w})*{p}" for p, w in weights.items()) + ": the sample is not an affine "
+              f"`{au.src(expr)[:200]}` = " + " + ".join(f"({w})*{p}" for p, w in weights.items())[:300] + ": the sample is not an affine "
               "combination of the points, it leaves the edge / face (and moves when the mesh is translated)",
               note=f"{label}: weights {', '.join(str(w) for w in weights.values())} sum to 1")
     if not good:
         return None
     # B2: non-negativity on the unit box
     scal = sorted(set().union(*[w.atoms() for w in weights.values()]))
-    known = []
-    for a in scal:
-        inner = a.strip("⟨⟩")
-        is_unit = a in unit_names or a in extra_unit
-        if not is_unit and a.startswith("⟨") and (inner.startswith("np.sqrt(") or inner.startswith("sqrt(")):
-            arg = inner[inner.index("(") + 1:-1]
-            is_unit = arg in unit_names
-        known.append(is_unit)
+    if not scal:
+        return weights
+    known = [unit_pred(a) for a in scal]
     if not all(known) or any(w.degree_in(a) > 1 for w in weights.values() for a in scal):
         ctx.declare_unsupported(f"{label}: sign of the weights not decided (an atom of {scal} has no known range or the form is not multilinear)")
         return weights
@@ -287,76 +462,803 @@ def bary_check(ctx, modname, fn, st, expr, point_pred, unit_names, label, extra_
     return weights
 
 
+def _combinations(fn, fl, mesh_p, keep, min_points=2):
+    """[(stmt, resolved expression)] of the values that combine >= 2 vertex reads and flow to the result of the sampler:
+    values stored into rows of a local array, and values bound to a returned / exported name"""
+    out = []
+    seen = set()
+    for st in au.stmts(fn.body):
+        vals = []
+        if isinstance(st, ast.Assign) and len(st.targets) == 1 and isinstance(st.targets[0], ast.Subscript) \
+                and isinstance(st.targets[0].value, ast.Name):
+            vals.append(st.value)
+        elif isinstance(st, ast.Return) and st.value is not None:
+            vals += list(st.value.elts[:1]) if isinstance(st.value, ast.Tuple) else [st.value]
+        elif isinstance(st, ast.AugAssign) and isinstance(st.target, ast.Attribute) and st.target.attr == "vertices":
+            vals.append(st.value)
+        elif isinstance(st, ast.Expr) and isinstance(st.value, ast.Call) and au.call_tail(st.value) in ("append", "extend") \
+                and isinstance(st.value.func, ast.Attribute) and isinstance(st.value.func.value, ast.Attribute) \
+                and st.value.func.value.attr == "vertices" and st.value.args:
+            vals.append(st.value.args[0])
+        for v in vals:
+            r = expand_weighted_sums(as_operators(fl.resolve(v, at=st, keep=keep)))
+            r = F.strip_calls(r, CONVERT + ("from_arrays",))
+            for conds, leaf in F.alternatives(r):
+                if len({au.norm(x) for x in _points(leaf, mesh_p)}) >= min_points and au.norm(leaf) not in seen:
+                    seen.add(au.norm(leaf))
+                    out.append((st, leaf))
+    return out
+
+
 def b1_barycentric(ctx):
-    n = 0
-    for name, container in (("sample_polyline", "edges"), ("sample_surface", "faces")):
+    for name, container, measure in ELEMENT:
         fn = ctx.repo.func(SAMP, name)
         site = ctx.site(SAMP, fn)
-        b = sym.Bindings(fn)
-        # names unpacked from vertex coordinates
-        point_names = set()
-        for st in au.stmts(fn.body):
-            if isinstance(st, ast.Assign) and any(isinstance(x, ast.Attribute) and x.attr == "vertices" for x in au.walk(st.value)):
-                for t in st.targets:
-                    point_names |= set(au.assigned_names(t))
-        stores = [st for st in au.stmts(fn.body) if isinstance(st, ast.Assign) and len(st.targets) == 1
-                  and isinstance(st.targets[0], ast.Subscript) and isinstance(st.targets[0].value, ast.Name)
-                  and (au.names(_res(b, st.value, at=st, keep=tuple(point_names))) & point_names)]
-        if not stores or not point_names:
-            _lost(ctx, "C19-B1", site, f"{name}: barycentric combination of the points not found",
-                     "no row store combining the vertex coordinates of the chosen element")
+        fl = F.Flow(fn)
+        mesh_p = au.params(fn)[0]
+        unit = _unit_names(fn)
+        combos = _combinations(fn, fl, mesh_p, keep=unit)
+        if not combos:
+            ctx.undecided("C19-B1", site, f"{name}: barycentric combination of the points not found",
+                          "no value combining the vertex coordinates of the chosen element reaches the result")
             continue
-        unit = _unit_atoms(fn, b, None)
-        for st in stores:
-            n += 1
-            expr = _res(b, st.value, at=st, keep=tuple(point_names | unit))
-            bary_check(ctx, SAMP, fn, st, expr, lambda a: a in point_names, unit, name)
-    # de_casteljau
+
+        def point_key(n, mesh_p=mesh_p):
+            if _is_point(n, mesh_p):
+                return "⟦" + au.src(n) + "⟧"
+            return None
+
+        def unit_pred(a, unit=unit):
+            inner = a.strip("⟨⟩⟦⟧")
+            if a in unit:
+                return True
+            for u in unit:
+                if inner.startswith(u + "["):
+                    return True
+            for pre in ("np.sqrt(", "sqrt(", "numpy.sqrt(", "math.sqrt("):
+                if inner.startswith(pre) and inner.endswith(")"):
+                    arg = inner[len(pre):-1]
+                    return arg in unit or any(arg.startswith(u + "[") for u in unit)
+            return False
+        for st, expr in combos:
+            bary_check(ctx, SAMP, fn, st, expr, point_key, unit_pred, name)
+    b1_de_casteljau(ctx)
+    b1_box(ctx)
+
+
+def _unit_cube_source(n, box_p):
+    """an expression that only produces numbers of [0, 1]: a draw of random(), or arrays assembled (meshgrid / ravel / stack /
+    transposition / map / list) from np.linspace(0, 1, ...) alone"""
+    if _is_draw(n):
+        return True
+    if not isinstance(n, (ast.Call, ast.Attribute, ast.Subscript, ast.Starred, ast.GeneratorExp, ast.ListComp)):
+        return False
+    lins = [c for c in ast.walk(n) if isinstance(c, ast.Call) and au.call_tail(c) == "linspace"]
+    if not lins or any(not (len(c.args) >= 2 and au.const(c.args[0]) == 0 and au.const(c.args[1]) == 1) for c in lins):
+        return False
+    allowed = {"linspace", "meshgrid", "ravel", "vstack", "hstack", "stack", "column_stack", "list", "tuple", "map", "array", "asarray",
+               "reshape", "flatten", "transpose", "range", "round", "power", "int", "rint", "ceil", "floor", "max", "min", "len", "product"}
+    for c in ast.walk(n):
+        if isinstance(c, ast.Call) and au.call_tail(c) not in allowed:
+            return False
+        if isinstance(c, ast.BinOp) and not any(c is x or any(c is y for y in ast.walk(x)) for l in lins for x in l.args[2:] + [k.value for k in l.keywords]):
+            return False       # arithmetic on the samples themselves (not in the sample count) may leave [0, 1]
+    return True
+
+
+def b1_box(ctx):
+    """sample_AABB: every returned point is a combination (1-u)*mini + u*maxi of the two corners with u in [0,1], in every mode"""
+    fn = ctx.repo.func(SAMP, "sample_AABB")
+    site = ctx.site(SAMP, fn)
+    fl = F.Flow(fn)
+    box_p = au.params(fn)[0]
+    n_found = 0
+    seen = set()
+    for st in au.stmts(fn.body):
+        if not (isinstance(st, ast.Return) and st.value is not None):
+            continue
+        r = F.strip_calls(fl.resolve(st.value, at=st, keep=(box_p,)), CONVERT + ("from_arrays",))
+        for conds, leaf in F.expand(r):
+            leaf = F.strip_calls(leaf, CONVERT + ("from_arrays",))
+            if isinstance(leaf, ast.Name) or au.norm(leaf) in seen:
+                continue      # the name left unbound by an impossible mode
+            seen.add(au.norm(leaf))
+            units = {}
+
+            def box_attr(n):
+                return n.attr if isinstance(n, ast.Attribute) and isinstance(n.value, ast.Name) and n.value.id == box_p else None
+
+            class T(ast.NodeTransformer):
+                def visit_Attribute(self, node):
+                    a = box_attr(node)
+                    if a == "span":
+                        return ast.parse(f"({box_p}.maxi - {box_p}.mini)", mode="eval").body
+                    if a == "center":
+                        return ast.parse(f"(({box_p}.maxi + {box_p}.mini) / 2)", mode="eval").body
+                    return self.generic_visit(node)
+            leaf2 = T().visit(F.clone(leaf))
+
+            def point_key(n):
+                a = box_attr(n)
+                if a in ("mini", "maxi"):
+                    return "⟦" + a + "⟧"
+                return None
+
+            def unit_pred(a):
+                return a in units
+
+            def mark_units(n):
+                if _unit_cube_source(n, box_p):
+                    k = ("⟨" + au.src(n) + "⟩") if isinstance(n, ast.Call) else ("⟦" + au.src(n) + "⟧" if isinstance(n, ast.Subscript) else au.src(n))
+                    units[k] = n
+            for n in ast.walk(leaf2):
+                mark_units(n)
+            # `.T` of a unit array is a unit array: fold it so that it becomes one atom
+            class FoldT(ast.NodeTransformer):
+                def visit_Attribute(self, node):
+                    self.generic_visit(node)
+                    if node.attr == "T" and _unit_cube_source(node.value, box_p):
+                        return ast.Call(func=ast.Name(id="transposed", ctx=ast.Load()), args=[node.value], keywords=[])
+                    return node
+            leaf3 = FoldT().visit(leaf2)
+            for n in ast.walk(leaf3):
+                if isinstance(n, ast.Call) and au.call_tail(n) == "transposed":
+                    units["⟨" + au.src(n) + "⟩"] = n
+            if not any(box_attr(n) in ("mini", "maxi") for n in ast.walk(leaf3)):
+                continue
+            n_found += 1
+            cond_txt = " and ".join(au.canon_test(t, p) for t, p in conds)
+            bary_check(ctx, SAMP, fn, st, leaf3, point_key, unit_pred, "sample_AABB" + (f" ({cond_txt})" if cond_txt else ""))
+    if not n_found:
+        ctx.undecided("C19-B1", site, "sample_AABB: the affine map of the unit samples onto the box is not found",
+                      "no returned value combines the corners of the box")
+
+
+def _entry(node, work):
+    """an entry of the working list `work` in a resolved blend:  ('idx', Poly) for work[e];  ('sl', lo, hi) for work[lo:hi];
+    ('el', offset) for an element of work / work[k:] taken by a loop or comprehension"""
+    if isinstance(node, ast.Subscript) and isinstance(node.value, ast.Name) and node.value.id in work:
+        s = node.slice
+        if isinstance(s, ast.Slice):
+            if s.step is not None:
+                return None
+            lo = sym.to_poly(s.lower) if s.lower is not None else Poly()
+            hi = sym.to_poly(s.upper) if s.upper is not None else None
+            return ("sl", lo, hi)
+        if isinstance(s, ast.Tuple):
+            return None
+        return ("idx", sym.to_poly(s))
+    if F.is_synth(node, "__elem__") and len(node.args) == 1:
+        a = node.args[0]
+        a = F.strip_calls(a, ("list", "tuple", "iter"))
+        if isinstance(a, ast.Name) and a.id in work:
+            return ("el", 0)
+        if isinstance(a, ast.Subscript) and isinstance(a.value, ast.Name) and a.value.id in work and isinstance(a.slice, ast.Slice) \
+                and a.slice.step is None and a.slice.upper is None:
+            k = au.const(a.slice.lower) if a.slice.lower is not None else 0
+            if isinstance(k, int):
+                return ("el", k)
+        if isinstance(a, ast.Subscript) and isinstance(a.value, ast.Name) and a.value.id in work and isinstance(a.slice, ast.Slice) \
+                and a.slice.step is None and a.slice.lower is None and a.slice.upper is not None:
+            return ("el", 0)     # work[:-1] zipped with work[1:]
+    return None
+
+
+def _is_next(cur, nxt):
+    if cur[0] != nxt[0]:
+        return False
+    if cur[0] == "idx":
+        return nxt[1] - cur[1] == Poly.const(1)
+    if cur[0] == "el":
+        return nxt[1] - cur[1] == 1
+    if cur[0] == "sl":
+        ok_lo = nxt[1] - cur[1] == Poly.const(1)
+        ok_hi = (cur[2] is None and nxt[2] is None) or (cur[2] is not None and nxt[2] is not None and nxt[2] - cur[2] == Poly.const(1))
+        return ok_lo and ok_hi
+    return False
+
+
+def b1_de_casteljau(ctx):
     fn = ctx.repo.func(BEZ, "de_casteljau")
     site = ctx.site(BEZ, fn)
     ps = au.params(fn)
-    b = sym.Bindings(fn)
-    blends = [st for st in au.stmts(fn.body) if isinstance(st, ast.Assign) and len(st.targets) == 1
-              and isinstance(st.targets[0], ast.Subscript) and isinstance(st.targets[0].value, ast.Name)
-              and any(isinstance(a, ast.For) for a in au.ancestors(st))]
-    if len(ps) != 2 or not blends:
-        n += 1
-        _lost(ctx, "C19-B1", site, "de_casteljau: blend `X[i] = t*X[i+1] + (1-t)*X[i]` not found",
-                 "no rebinding store of a blended entry inside the de Casteljau loops")
-        blends = []
-    for st in blends:
-        n += 1
-        arr = st.targets[0].value.id
-        tname = ps[1]
-        expr = _res(b, st.value, at=st, keep=(arr, tname))
-        pref = arr + "["
-        w = bary_check(ctx, BEZ, fn, st, expr, lambda a: a.startswith(pref), set(), "de_casteljau", extra_unit=(tname,))
+    if len(ps) != 2:
+        ctx.undecided("C19-B1", site, "de_casteljau does not take (control points, t)", "")
+        return
+    P, t = ps
+    fl = F.Flow(fn)
+    # names of the working list: the parameter and every local sequence derived from it
+    work = {P}
+    changed = True
+    while changed:
+        changed = False
+        for st in au.stmts(fn.body):
+            for name, v in sym.split_assign(st):
+                if name not in work and (au.names(v) & work) and not isinstance(v, (ast.BinOp, ast.Compare, ast.BoolOp)) \
+                        and not (isinstance(v, ast.Call) and au.call_tail(v) == "len"):
+                    if isinstance(v, (ast.Name, ast.Call, ast.ListComp, ast.Subscript, ast.List, ast.Tuple)):
+                        if not (isinstance(v, ast.Subscript) and not isinstance(v.slice, ast.Slice)):
+                            work.add(name)
+                            changed = True
+    cands = []
+    for st in au.stmts(fn.body):
+        if isinstance(st, ast.Assign) and len(st.targets) == 1:
+            tg = st.targets[0]
+            if isinstance(tg, ast.Subscript) and isinstance(tg.value, ast.Name) and tg.value.id in work \
+                    and any(isinstance(a, (ast.For, ast.While)) for a in au.ancestors(st)):
+                cands.append((st, tg, st.value))
+            elif isinstance(tg, ast.Name) and tg.id in work and isinstance(st.value, (ast.ListComp, ast.GeneratorExp)) \
+                    and isinstance(st.value.elt, ast.BinOp):
+                cands.append((st, None, st.value.elt))
+        for c in au.calls(st) if isinstance(st, (ast.Return, ast.Expr, ast.Assign)) else []:
+            if au.call_tail(c) == "de_casteljau" and c.args and isinstance(c.args[0], (ast.ListComp, ast.GeneratorExp)) \
+                    and isinstance(c.args[0].elt, ast.BinOp):
+                cands.append((st, None, c.args[0].elt))
+    if not cands:
+        # a level built inside a lambda / nested function (functools.reduce over the levels ...)
+        for n in ast.walk(fn):
+            if isinstance(n, (ast.ListComp, ast.GeneratorExp)) and isinstance(n.elt, ast.BinOp) and t in au.names(fl.resolve(n.elt, at=n.elt, keep=(t,))):
+                st_ = au.enclosing_stmt(n) or fn.body[0]
+                for g in n.generators:
+                    work |= {x.id for x in ast.walk(g.iter) if isinstance(x, ast.Name)}
+                cands.append((st_, None, n.elt))
+    if not cands:
+        ctx.undecided("C19-B1", site, "de_casteljau: blend of neighbouring entries not found",
+                      "no store of a blended entry and no comprehension building the next level")
+        return
+    for st, tg, val in cands:
+        expr = fl.resolve(val, at=val, keep=tuple(work) + (t,))
+        entries = {}
+
+        def point_key(n):
+            e = _entry(n, work)
+            if e is not None:
+                k = "⟦" + au.src(n) + "⟧"
+                entries[k] = e
+                return k
+            return None
+        w = bary_check(ctx, BEZ, fn, st, expr, point_key, lambda a: a == t, "de_casteljau")
         if w is None:
             continue
-        # entry i+1 with weight t, entry i (the one written) with weight 1-t
-        tgt = au.src(st.targets[0])
-        tpoly = Poly.atom(tname)
-        idx = st.targets[0].slice
-        hi = [p for p in w if p != tgt]
-        ok = tgt in w and len(w) == 2 and w[tgt] == Poly.const(1) - tpoly and w[hi[0]] == tpoly
-        if ok:
-            # the other entry must be the next one
-            other = ast.parse(hi[0], mode="eval").body
-            try:
-                d = sym.to_poly(other.slice, opaque=False) - sym.to_poly(idx, opaque=False)
-                ok = d == Poly.const(1)
-            except Exception:
-                ok = False
+        tpoly = Poly.atom(t)
+        cur = [k for k in w if w[k] == Poly.const(1) - tpoly]
+        nxt = [k for k in w if w[k] == tpoly]
+        ok = len(w) == 2 and len(cur) == 1 and len(nxt) == 1 and _is_next(entries[cur[0]], entries[nxt[0]])
+        if ok and tg is not None:
+            te = _entry(F.clone(fl.resolve(ast.Subscript(value=tg.value, slice=tg.slice, ctx=ast.Load()), at=st, keep=tuple(work) + (t,))), work)
+            ok = te is not None and te == entries[cur[0]]
         ctx.check(ok, "C19-B1", ctx.site(BEZ, fn, st),
                   "de_casteljau: the blend is not `entry[i] = t*entry[i+1] + (1-t)*entry[i]`",
-                  f"weights {dict((k, str(v)) for k, v in w.items())} written to {tgt}: B(0) must be the first control point and B(1) the last",
+                  f"weights {dict((k, str(v)) for k, v in w.items())}: B(0) must be the first control point and B(1) the last",
                   note="de_casteljau: weight t on entry i+1, 1-t on entry i")
-    _floor(ctx, "C19-B1", "C19-B1 combinations", n, 3)
+
+
+# ----------------------------------------------------------------------- C19-F1
+def _selector_verdict(sel, drawn_ok):
+    """how an element of a container is selected: through the drawn value ('ok'), by a sample counter only ('counter'), else None;
+    second result: the drawn array the selection goes through"""
+    sel = F.strip_calls(sel, ("int",))
+    draw = None
+    has_counter = False
+    skip = set()
+    for n in ast.walk(sel):
+        if id(n) in skip:
+            continue
+        hit = None
+        if F.is_synth(n, "__elem__") and drawn_ok(n.args[0]):
+            hit = n.args[0]
+        elif isinstance(n, ast.Subscript) and drawn_ok(n.value):
+            hit = n.value        # drawn[i]
+        elif isinstance(n, (ast.Call, ast.IfExp)) and drawn_ok(n):
+            hit = n
+        if hit is not None:
+            draw = draw if draw is not None else hit
+            skip |= {id(x) for x in ast.walk(n)}
+        elif F.is_synth(n, "__index__") or F.is_synth(n, "__range__"):
+            has_counter = True
+            skip |= {id(x) for x in ast.walk(n)}
+    if draw is not None:
+        return "ok", draw
+    if has_counter:
+        return "counter", None
+    return None, None
+
+
+def f1_drawn_element(ctx):
+    for name, container, measure in ELEMENT:
+        fn = ctx.repo.func(SAMP, name)
+        site = ctx.site(SAMP, fn)
+        fl = F.Flow(fn)
+        mesh_p = au.params(fn)[0]
+        unit = _unit_names(fn)
+        combos = _combinations(fn, fl, mesh_p, keep=unit, min_points=1)
+        if not combos:
+            ctx.undecided("C19-F1", site, f"{name}: the vertices combined for a sample are not found", "see C19-B1")
+            continue
+
+        def drawn_ok(e):
+            def peel(x):
+                x = F.strip_calls(x, CONVERT + ("int", "sorted"))
+                while F.is_synth(x, "__mutated__") and au.const(x.args[1]) in ("sort", "reverse", "shuffle", "partition"):
+                    x = F.strip_calls(x.args[0], CONVERT + ("int", "sorted"))       # a reordering of the draw is still the draw
+                return x
+            leaves = [peel(leaf) for c, leaf in F.alternatives(e)]
+            is_draw = lambda x: isinstance(x, ast.Call) and au.call_tail(x) == "choice"
+            return all(is_draw(x) or _is_const_fallback(x) for x in leaves) and any(is_draw(x) for x in leaves)
+        verdicts = []
+        point_draws = []
+        for st, expr in combos:
+            for rd in _vertex_reads(expr, mesh_p):
+                # the vertex index comes from a row of a container of the mesh: find that row selection
+                rows = [n for n in ast.walk(rd.slice) if isinstance(n, ast.Subscript) and _container_of(n.value, mesh_p) is not None
+                        and _container_of(n.value, mesh_p) != "vertices"]
+                rows += [n.args[0] for n in ast.walk(rd.slice) if F.is_synth(n, "__elem__") and isinstance(n.args[0], ast.Subscript)
+                         and _container_of(n.args[0].value, mesh_p) not in (None, "vertices") and n.args[0] not in rows]
+                if not rows:
+                    verdicts.append((None, st, rd, "no row of a container of the mesh selects the vertex"))
+                    continue
+                for row in rows:
+                    cont = _container_of(row.value, mesh_p)
+                    sel = row.slice.elts[0] if isinstance(row.slice, ast.Tuple) and row.slice.elts else row.slice
+                    v, dr = _selector_verdict(sel, drawn_ok)
+                    if dr is not None:
+                        point_draws.append(dr)
+                    if cont != container:
+                        verdicts.append(("container", st, rd, cont))
+                    else:
+                        verdicts.append((v, st, rd, au.src(sel)[:80]))
+        bad = [v for v in verdicts if v[0] in ("counter", "container")]
+        unk = [v for v in verdicts if v[0] is None]
+        if bad:
+            v = bad[0]
+            ctx.fail("C19-F1", ctx.site(SAMP, fn, v[1]),
+                     f"{name}: the combined vertices are not those of the drawn element (row of `{container}` selected by the drawn value)",
+                     (f"the vertices are read through `{mesh_p}.{v[3]}`" if v[0] == "container" else
+                      f"the row of `{mesh_p}.{container}` is selected by the sample counter `{v[3]}`") +
+                     ": the sample must lie on the element drawn for it; indexing by the sample counter ignores the length / area weighting")
+        elif unk:
+            v = unk[0]
+            ctx.undecided("C19-F1", ctx.site(SAMP, fn, v[1]), f"{name}: how the combined vertices are selected is not recognised", str(v[3]))
+        else:
+            ctx.ok("C19-F1", site, f"{name}: vertices of the drawn element {mesh_p}.{container}[drawn]")
+        if name == "sample_surface":
+            _f1_normals(ctx, fn, fl, mesh_p, drawn_ok, point_draws)
+
+
+def _is_const_fallback(e):
+    """`[0] * n`, `np.zeros(n, dtype=int)`: the single-element fallback of the draw"""
+    if isinstance(e, ast.BinOp) and isinstance(e.op, ast.Mult) and any(isinstance(x, ast.List) and len(x.elts) == 1 and au.const(x.elts[0]) == 0
+                                                                       for x in (e.left, e.right)):
+        return True
+    return isinstance(e, ast.Call) and au.call_tail(e) in ("zeros", "zeros_like")
+
+
+def _f1_normals(ctx, fn, fl, mesh_p, drawn_ok, point_draws=()):
+    site = ctx.site(SAMP, fn)
+    reads = []
+    for n in au.walk(fn):
+        if isinstance(n, ast.Subscript) and isinstance(n.ctx, ast.Load):
+            base = fl.resolve(n.value, at=n)
+            base = _strip_data(base)
+            if isinstance(base, ast.Call) and au.call_tail(base) == "face_normals":
+                reads.append((n, base))
+    if not reads:
+        ctx.undecided("C19-F1", site, "sample_surface: normals of the drawn faces (`face_normals(mesh)[drawn]`) not found", "")
+        return
+    for n, base in reads:
+        sel = fl.resolve(n.slice, at=n)
+        sel = sel.elts[0] if isinstance(sel, ast.Tuple) and sel.elts else sel
+        v, dr = _selector_verdict(sel, drawn_ok)
+        src_ok = bool(base.args) and isinstance(base.args[0], ast.Name) and base.args[0].id == mesh_p
+        s = ctx.site(SAMP, fn, n)
+        other = [d for d in point_draws if dr is not None and not au.same(d, dr)]
+        if v == "ok" and other and all(F.find_calls(d, "choice") for d in other + [dr]) \
+                and any(F.is_synth(x, "__mutated__") for d in other + [dr] for x in ast.walk(d)):
+            ctx.fail("C19-F1", s, "sample_surface: returned normals are not face_normals(mesh) indexed by the drawn faces in order",
+                     f"the normals are gathered from `{au.src(dr)[:70]}` but the points from `{au.src(other[0])[:90]}`: the drawn array is "
+                     f"reordered in place between the two, the i-th normal is no longer the normal of the face of the i-th point")
+        elif v == "counter" or not src_ok:
+            ctx.fail("C19-F1", s, "sample_surface: returned normals are not face_normals(mesh) indexed by the drawn faces in order",
+                     f"`{au.src(n)}` selects by `{au.src(sel)[:80]}`: the i-th normal must be the normal of the face the i-th point was drawn on")
+        elif v == "ok":
+            ctx.ok("C19-F1", s, "normals indexed by the drawn faces, in order")
+        else:
+            ctx.undecided("C19-F1", s, "sample_surface: how the returned normals are selected is not recognised", au.src(sel)[:120])
+
+
+# ----------------------------------------------------------------------- C19-W1 / W2
+STORED = ("get_attribute", "has_attribute", "attribute", "attributes")
+SUMS = ("sum", "nansum")
+
+
+def _sum_of(e):
+    """`np.sum(x)` / `x.sum()` / `sum(x)` -> x, else None"""
+    if isinstance(e, ast.Call) and au.call_tail(e) in SUMS:
+        if isinstance(e.func, ast.Attribute) and not F._is_mod(e.func.value) and not e.args:
+            return e.func.value
+        if e.args:
+            return e.args[0]
+    return None
+
+
+UFUNC_BIN = {"add": ast.Add, "subtract": ast.Sub, "multiply": ast.Mult, "divide": ast.Div, "true_divide": ast.Div, "floor_divide": ast.FloorDiv,
+             "mod": ast.Mod, "remainder": ast.Mod, "power": ast.Pow}
+UFUNC_CMP = {"less": ast.Lt, "less_equal": ast.LtE, "greater": ast.Gt, "greater_equal": ast.GtE, "equal": ast.Eq, "not_equal": ast.NotEq}
+
+
+def as_operators(e):
+    """numpy ufunc calls read as the operators they stand for: np.subtract(a, b) -> a - b, np.less_equal(a, b) -> a <= b,
+    np.negative(a) -> -a, x.any() / x.all() -> np.any(x) / np.all(x), bool(x) -> x"""
+    class T(ast.NodeTransformer):
+        def visit_Call(self, node):
+            self.generic_visit(node)
+            t = au.call_tail(node)
+            is_np = isinstance(node.func, ast.Attribute) and F._is_mod(node.func.value)
+            if is_np and t in UFUNC_BIN and len(node.args) == 2 and not any(k.arg == "out" for k in node.keywords):
+                return ast.BinOp(left=node.args[0], op=UFUNC_BIN[t](), right=node.args[1])
+            if is_np and t in UFUNC_CMP and len(node.args) == 2:
+                return ast.Compare(left=node.args[0], ops=[UFUNC_CMP[t]()], comparators=[node.args[1]])
+            if is_np and t == "negative" and len(node.args) == 1:
+                return ast.UnaryOp(op=ast.USub(), operand=node.args[0])
+            if t in ("any", "all") and isinstance(node.func, ast.Attribute) and not is_np and not node.args:
+                return ast.Call(func=ast.Attribute(value=ast.Name(id="np", ctx=ast.Load()), attr=t, ctx=ast.Load()), args=[node.func.value], keywords=[])
+            if isinstance(node.func, ast.Name) and node.func.id == "bool" and len(node.args) == 1:
+                return node.args[0]
+            if t == "take" and len(node.args) >= 2 and (is_np or isinstance(node.func, ast.Attribute)):
+                ax = next((k.value for k in node.keywords if k.arg == "axis"), node.args[2] if len(node.args) > 2 else None)
+                if ax is None or au.const(ax) == 0:
+                    base_ = node.args[0] if is_np else node.func.value
+                    idx_ = node.args[1] if is_np else node.args[0]
+                    return ast.Subscript(value=base_, slice=idx_, ctx=ast.Load())
+            return node
+    return T().visit(F.clone(e)) if e is not None else None
+
+
+def expand_weighted_sums(e):
+    """`np.einsum("nc,ncx->nx", W, T)` and `(W[:, :, None] * T).sum(axis=1)` with W = np.stack((w0, w1, ...), axis=-1) written as
+    the sum  w0 * T[:, 0] + w1 * T[:, 1] + ...  (the barycentric combination they compute)"""
+    import re
+
+    def columns(W):
+        W = F.strip_calls(W, ("asarray", "array"))
+        if isinstance(W, ast.Call) and au.call_tail(W) in ("stack", "column_stack") and W.args and isinstance(W.args[0], (ast.Tuple, ast.List)):
+            ax = next((au.const(k.value) for k in W.keywords if k.arg == "axis"), None)
+            if au.call_tail(W) == "column_stack" or ax in (-1, 1):
+                return list(W.args[0].elts)
+        return None
+
+    def build(cols, T):
+        out = None
+        for k, w in enumerate(cols):
+            term = ast.BinOp(left=w, op=ast.Mult(), right=ast.Subscript(value=T, slice=ast.Tuple(elts=[ast.Slice(), ast.Constant(k)], ctx=ast.Load()), ctx=ast.Load()))
+            out = term if out is None else ast.BinOp(left=out, op=ast.Add(), right=term)
+        return out
+
+    class T_(ast.NodeTransformer):
+        def visit_Call(self, node):
+            self.generic_visit(node)
+            t = au.call_tail(node)
+            if t == "einsum" and len(node.args) == 3 and isinstance(node.args[0], ast.Constant) and isinstance(node.args[0].value, str) \
+                    and re.fullmatch(r"(\w)(\w),\1\2(\w)->\1\3", node.args[0].value.replace(" ", "")):
+                cols = columns(node.args[1])
+                if cols:
+                    return build(cols, node.args[2])
+            if t == "sum" and any(k.arg == "axis" and au.const(k.value) == 1 for k in node.keywords):
+                X_ = node.func.value if (isinstance(node.func, ast.Attribute) and not F._is_mod(node.func.value)) else (node.args[0] if node.args else None)
+                if isinstance(X_, ast.BinOp) and isinstance(X_.op, ast.Mult):
+                    for a, b in ((X_.left, X_.right), (X_.right, X_.left)):
+                        a2 = _strip_broadcast(a)
+                        cols = columns(a2) if a2 is not a else None
+                        if cols:
+                            return build(cols, b)
+            return node
+    return T_().visit(F.clone(e)) if e is not None else None
+
+
+def _as_division(e):
+    """`np.divide(a, b)` / `np.true_divide(a, b)` / `a * (1 / b)` read as `a / b`"""
+    class T(ast.NodeTransformer):
+        def visit_Call(self, node):
+            self.generic_visit(node)
+            if au.call_tail(node) in ("divide", "true_divide") and len(node.args) == 2 and not node.keywords:
+                return ast.BinOp(left=node.args[0], op=ast.Div(), right=node.args[1])
+            return node
+
+        def visit_BinOp(self, node):
+            self.generic_visit(node)
+            if isinstance(node.op, ast.Mult):
+                for a, b in ((node.left, node.right), (node.right, node.left)):
+                    if isinstance(b, ast.BinOp) and isinstance(b.op, ast.Div) and au.const(b.left) in (1, 1.0):
+                        return ast.BinOp(left=a, op=ast.Div(), right=b.right)
+            return node
+    return T().visit(F.clone(e)) if e is not None else None
+
+
+def w_weights(ctx):
+    for name, container, measure in ELEMENT:
+        fn = ctx.repo.func(SAMP, name)
+        site = ctx.site(SAMP, fn)
+        fl = F.Flow(fn)
+        mesh_p = au.params(fn)[0]
+        what_ = measure.split("_")[1]
+        draws = [c for c in au.calls(fn) if au.call_tail(c) == "choice"]
+        if not draws:
+            ctx.undecided("C19-W1", site, f"{name}: the weighted draw `choice(n_elements, size=n_pts, p=weights)` not found", "no call of choice")
+            ctx.undecided("C19-W2", site, f"{name}: weight array of the draw not found", "no call of choice")
+            continue
+        for c in draws:
+            s = ctx.site(SAMP, fn, c)
+            # ---- population
+            pop_e = c.args[0] if c.args else next((k.value for k in c.keywords if k.arg == "a"), None)
+            pop = fl.resolve(pop_e, at=c) if pop_e is not None else None
+            cont = None
+            if pop is not None:
+                p2 = F.strip_calls(pop, ("int",))
+                if isinstance(p2, ast.Call) and au.call_tail(p2) in ("len", "arange", "range") and len(p2.args) == 1:
+                    inner = p2.args[0]
+                    if au.call_tail(p2) in ("arange", "range") and isinstance(inner, ast.Call) and au.call_tail(inner) == "len" and inner.args:
+                        inner = inner.args[0]
+                    cont = _container_of(inner, mesh_p)
+                elif isinstance(p2, ast.Attribute) and p2.attr == "size":
+                    cont = _container_of(p2.value, mesh_p)
+            if cont == container:
+                ctx.ok("C19-W1", s, f"{name}: population len({mesh_p}.{container})")
+            elif cont is not None:
+                ctx.fail("C19-W1", s, f"{name}: elements are not drawn among range(len({mesh_p}.{container}))",
+                         f"population `{au.src(pop)}` counts `{mesh_p}.{cont}`")
+            else:
+                ctx.undecided("C19-W1", s, f"{name}: population of the draw is not recognised", f"`{au.src(pop) if pop is not None else None}`")
+            # ---- weights
+            pk = next((k.value for k in c.keywords if k.arg == "p"), c.args[3] if len(c.args) > 3 else None)
+            if pk is None or (isinstance(pk, ast.Constant) and pk.value is None):
+                ctx.fail("C19-W1", s, f"{name}: the draw has no weight array `p=` (uniform over {container})",
+                         f"`{au.src(c)}`: the share of samples per element must follow its {what_}, not be uniform")
+                ctx.undecided("C19-W2", s, f"{name}: weight array of the draw not found", "reported in detail by C19-W1")
+                continue
+            helpers_ = {q: f_ for q, f_ in ctx.repo.module(SAMP).funcs.items() if "." not in q and q != name}
+            p = _as_division(as_operators(F.inline_calls(fl.resolve(pk, at=c), helpers_)))
+            for conds, leaf in F.alternatives(p):
+                leaf = _as_division(F.strip_calls(leaf, ("asarray", "array", "abs")))
+                if isinstance(leaf, ast.BinOp) and isinstance(leaf.op, ast.Div):
+                    num, den = leaf.left, leaf.right
+                    summed = _sum_of(den)
+                    peel = lambda x: F.strip_calls(x, CONVERT + ("abs", "absolute", "float", "fabs")) if x is not None else None
+                    if summed is not None and au.same(peel(summed), peel(num)):
+                        ctx.ok("C19-W1", s, f"{name}: weights normalised by their own sum")
+                    elif summed is not None and (au.names(summed) & au.names(num)) and F.find_calls(summed, measure) and F.find_calls(num, measure):
+                        ctx.undecided("C19-W1", s, f"{name}: normalisation of the draw weights is not recognised", f"`{au.src(leaf)[:160]}`")
+                    elif summed is not None or (isinstance(den, ast.Call) and au.call_tail(den) in ("max", "amax", "min", "mean", "norm", "len", "prod")):
+                        ctx.fail("C19-W1", s, f"{name}: the draw weights are not divided by their own sum",
+                                 f"`p={au.src(pk)}` resolves to `{au.src(num)[:80]} / {au.src(den)[:80]}`: the weights must be normalised by "
+                                 f"np.sum of themselves to be the probability of each element")
+                    else:
+                        ctx.undecided("C19-W1", s, f"{name}: normalisation of the draw weights is not recognised", f"`{au.src(leaf)[:160]}`")
+                    _w2_provenance(ctx, name, fn, s, num, mesh_p, measure, what_)
+                else:
+                    raw = F.strip_calls(leaf, CONVERT + ("abs", "absolute"))
+                    is_raw_measure = isinstance(raw, ast.Call) and au.call_tail(raw) == measure
+                    if is_raw_measure:
+                        ctx.fail("C19-W1", s, f"{name}: the draw weights are not divided by their own sum",
+                                 f"`p={au.src(pk)}` resolves to `{au.src(leaf)[:120]}`, which is not normalised")
+                    else:
+                        ctx.undecided("C19-W1", s, f"{name}: normalisation of the draw weights is not recognised", f"`{au.src(leaf)[:160]}`")
+                    _w2_provenance(ctx, name, fn, s, leaf, mesh_p, measure, what_)
+
+
+def _w2_provenance(ctx, name, fn, s, expr, mesh_p, measure, what_):
+    for conds, leaf in F.alternatives(expr):
+        # conditional expressions nested deeper (a branch that reads a stored attribute) are alternatives as well
+        inner_alts = [x for n in ast.walk(leaf) if isinstance(n, ast.IfExp) for x in (n.body, n.orelse)] or [leaf]
+        for alt in inner_alts if any(isinstance(n, ast.IfExp) for n in ast.walk(leaf)) else [leaf]:
+            stored = [c for c in ast.walk(alt) if isinstance(c, ast.Call) and au.call_tail(c) in STORED]
+            # a read from a module-level container (a cache filled by an earlier call) is a read from a store as well
+            mod_ = ctx.repo.module(SAMP)
+            for n_ in ast.walk(alt):
+                if isinstance(n_, ast.Subscript) or (isinstance(n_, ast.Call) and isinstance(n_.func, ast.Attribute) and n_.func.attr in ("get", "setdefault", "pop")):
+                    root_ = n_.value if isinstance(n_, ast.Subscript) else n_.func.value
+                    if isinstance(root_, ast.Name) and root_.id not in au.params(fn):
+                        r_ = ctx.repo.resolve(mod_.name, root_.id)
+                        if r_ is not None and r_[0] == "var":
+                            stored.append(n_)
+            calls = F.find_calls(alt, measure)
+            fresh = bool(calls) and all(c.args and isinstance(c.args[0], ast.Name) and c.args[0].id == mesh_p for c in calls)
+            if stored:
+                ctx.fail("C19-W2", s, f"{name}: a definition of the draw weights is not computed from {measure}({mesh_p}) in this call",
+                         f"`{au.src(alt)[:140]}`: weights read back from a stored attribute are "
+                         f"stale once the vertices have moved - the share of samples per element no longer follows its {what_}")
+            elif calls and not fresh:
+                ctx.fail("C19-W2", s, f"{name}: a definition of the draw weights is not computed from {measure}({mesh_p}) in this call",
+                         f"`{au.src(alt)[:140]}`: {measure} is evaluated on another mesh than `{mesh_p}`")
+            elif fresh:
+                ctx.ok("C19-W2", s, f"{name}: weights = {measure}({mesh_p}) computed in the call")
+            else:
+                ctx.undecided("C19-W2", s, f"{name}: provenance of the draw weights is not recognised",
+                              f"`{au.src(alt)[:140]}` is neither {measure}({mesh_p}) nor a stored attribute")
+
+
+# ----------------------------------------------------------------------- C19-P1
+def _is_root(n, fl_names):
+    """`x ** (1/d)`, `np.power(x, 1/d)`, `np.cbrt(x)`, `np.sqrt(x)` with x mentioning n_pts"""
+    if isinstance(n, ast.BinOp) and isinstance(n.op, ast.Pow) and "n_pts" in au.names(n.left):
+        return any(isinstance(x, ast.BinOp) and isinstance(x.op, ast.Div) for x in ast.walk(n.right)) or (
+            isinstance(au.const(n.right), float) and 0 < au.const(n.right) < 1)
+    if isinstance(n, ast.Call) and au.call_tail(n) == "power" and len(n.args) == 2 and "n_pts" in au.names(n.args[0]):
+        return True
+    if isinstance(n, ast.Call) and au.call_tail(n) in ("cbrt", "sqrt") and n.args and "n_pts" in au.names(n.args[0]):
+        return True
+    return False
+
+
+def _root_chains(e, chain=()):
+    """[wrappers from the outside in] for every root of n_pts inside e"""
+    if _is_root(e, None):
+        return [list(chain)]
+    out = []
+    for c in ast.iter_child_nodes(e):
+        if isinstance(c, ast.AST):
+            out += _root_chains(c, chain + (e,))
+    return out
+
+
+def p1_grid_resolution(ctx):
+    fn = ctx.repo.func(SAMP, "sample_AABB")
+    site = ctx.site(SAMP, fn)
+    fl = F.Flow(fn)
+    found = 0
+    for c in au.calls(fn):
+        if au.call_tail(c) != "linspace":
+            continue
+        num = c.args[2] if len(c.args) >= 3 else next((k.value for k in c.keywords if k.arg == "num"), None)
+        if num is None:
+            continue
+        r = fl.resolve(num, at=c, keep=("n_pts",))
+        for chain in _root_chains(r):
+            found += 1
+            s = ctx.site(SAMP, fn, c)
+            kinds = []
+            for k, w in enumerate(chain):
+                if isinstance(w, ast.Call):
+                    t = au.call_tail(w)
+                    if t in ("round", "rint", "around", "round_"):
+                        kinds.append("round")
+                    elif t in ("int", "floor", "trunc", "fix") or (t == "astype" and w.args and au.src(w.args[0]) in ("int", "np.int64", "np.int32")):
+                        inner = chain[k + 1] if k + 1 < len(chain) else None
+                        half = isinstance(inner, ast.BinOp) and isinstance(inner.op, ast.Add) and any(au.const(x) == 0.5 for x in (inner.left, inner.right))
+                        kinds.append("round" if half else "trunc")
+                    elif t == "ceil":
+                        kinds.append("ceil")
+                elif isinstance(w, ast.BinOp) and isinstance(w.op, ast.FloorDiv):
+                    kinds.append("trunc")
+            if "round" in kinds:
+                ctx.ok("C19-P1", s, "sample_AABB: grid resolution is the rounded root of n_pts")
+            elif "trunc" in kinds or "ceil" in kinds:
+                how = "truncated" if "trunc" in kinds else "rounded up"
+                ctx.fail("C19-P1", s, f"sample_AABB: the grid resolution is the {how} root of n_pts, not the rounded one",
+                         f"`{au.src(r)[:120]}`: for n_pts just below a perfect power r^d (e.g. 63 in 3D) the grid has "
+                         f"{'(r-1)^d' if 'trunc' in kinds else 'more than r^d'} points instead of the nearest perfect power")
+            else:
+                ctx.undecided("C19-P1", s, "sample_AABB: how the grid resolution is made an integer is not recognised", f"`{au.src(r)[:120]}`")
+    if not found:
+        ctx.undecided("C19-P1", site, "sample_AABB: grid resolution (linspace over the root of n_pts) not found", "")
 
 
 # ----------------------------------------------------------------------- C19-G1
 def _is_dc(e):
     return isinstance(e, ast.Call) and isinstance(e.func, ast.Name) and e.func.id == "de_casteljau"
+
+
+def unpartial(e):
+    """`partial(f, a, k=v)(b)` -> `f(a, b, k=v)`"""
+    class T(ast.NodeTransformer):
+        def visit_Call(self, node):
+            self.generic_visit(node)
+            f = node.func
+            if isinstance(f, ast.Call) and au.call_tail(f) == "partial" and f.args:
+                return ast.Call(func=f.args[0], args=list(f.args[1:]) + list(node.args), keywords=list(f.keywords) + list(node.keywords))
+            return node
+    return T().visit(F.clone(e)) if e is not None else None
+
+
+_DC_PARAMS = ["P", "t"]     # refreshed from the source by g1_de_casteljau
+
+
+def _dc_arg(dc, k):
+    """k-th argument of a de_casteljau call, positional or by keyword"""
+    if len(dc.args) > k:
+        return dc.args[k]
+    return next((kw.value for kw in dc.keywords if kw.arg == _DC_PARAMS[k]), None)
+
+
+EVAL_METHODS = ("evaluate", "_evaluate_row")
+
+
+def _is_eval_call(x):
+    return _is_dc(x) or (isinstance(x, ast.Call) and isinstance(x.func, ast.Attribute) and au.is_self_attr(x.func) and x.func.attr in EVAL_METHODS)
+
+
+def _alias_kind(d, P):
+    """how a (resolved) working value relates to the parameter P: 'alias' (may be P itself), 'shallow' (new list, same entries),
+    'deep' (new array of new entries), 'fresh' (unrelated), None (unknown).  Second result: float dtype requested (True/False/None)."""
+    if isinstance(d, ast.Name):
+        return ("alias" if d.id == P else None), None
+    if isinstance(d, ast.Call):
+        t = au.call_tail(d)
+        arg = d.args[0] if d.args else None
+        on_p = arg is not None and isinstance(arg, ast.Name) and arg.id == P
+        dtype = next((k.value for k in d.keywords if k.arg == "dtype"), d.args[1] if (t in ("array", "asarray", "asanyarray") and len(d.args) > 1) else None)
+        isfloat = None if dtype is None else (au.src(dtype) in ("float", "np.float64", "numpy.float64", "np.double", "'float'", "'float64'", "np.float_"))
+        if t in ("asarray", "asanyarray", "ascontiguousarray", "atleast_2d", "atleast_1d"):
+            if arg is not None:
+                k, _ = _alias_kind(arg, P)
+                return ("alias" if k == "alias" else k), isfloat
+        if t in ("array", "deepcopy"):
+            if arg is not None:
+                k, _ = _alias_kind(arg, P)
+                return ("deep" if k in ("alias", "shallow", "deep") else k), (isfloat if t == "array" else None)
+        if t in ("list", "tuple", "sorted", "reversed") and arg is not None:
+            k, _ = _alias_kind(arg, P)
+            return ("shallow" if k in ("alias", "shallow") else k), None
+        if t == "copy":
+            inner = arg if arg is not None else (d.func.value if isinstance(d.func, ast.Attribute) else None)
+            if inner is not None:
+                k, fl_ = _alias_kind(inner, P)
+                is_np = isinstance(d.func, ast.Attribute) and F._is_mod(d.func.value)
+                inner_np = isinstance(inner, ast.Call) and au.call_tail(inner) in ("asarray", "array", "asanyarray", "stack", "vstack")
+                if is_np or inner_np:
+                    return ("deep" if k in ("alias", "shallow", "deep") else k), fl_     # np.copy(x) / np.asarray(x).copy()
+                return ("shallow" if k in ("alias", "shallow") else k), None
+        if t == "astype" and isinstance(d.func, ast.Attribute):
+            k, _ = _alias_kind(d.func.value, P)
+            tgt_ = au.src(d.args[0]) if d.args else ""
+            return ("deep" if k in ("alias", "shallow", "deep") else k), tgt_ in ("float", "np.float64", "numpy.float64", "np.double", "'float'", "'float64'")
+        if t in ("stack", "vstack", "concatenate", "row_stack") and arg is not None:
+            k, _ = _alias_kind(arg, P)
+            return ("deep" if k in ("alias", "shallow", "deep") else k), None
+        if t in ("zeros", "empty", "ones", "zeros_like", "empty_like", "full"):
+            return "fresh", (isfloat if dtype is not None else True)
+        return None, None
+    if isinstance(d, (ast.ListComp, ast.GeneratorExp)):
+        if F.is_synth(d.elt, "__elem__"):
+            k, _ = _alias_kind(d.elt.args[0], P)
+            return ("shallow" if k in ("alias", "shallow") else k), None
+        return "fresh", None
+    if isinstance(d, (ast.List, ast.Tuple)):
+        return "fresh", None
+    if isinstance(d, ast.Subscript) and isinstance(d.slice, ast.Slice):
+        k, _ = _alias_kind(d.value, P)
+        return ("shallow" if k in ("alias", "shallow") else k), None
+    if isinstance(d, ast.IfExp):
+        a, fa = _alias_kind(d.body, P)
+        b, fb = _alias_kind(d.orelse, P)
+        rank = {"alias": 0, "shallow": 1, None: 2, "deep": 3, "fresh": 4}
+        return (a if rank[a] <= rank[b] else b), (fa if fa == fb else None)
+    return None, None
+
+
+def _resolve_object(fl, name, at, P):
+    """the expression that created the object `name` refers to at `at`; the parameter P stands for the caller's object only where
+    it has not been rebound (`P = list(P)` makes P a copy: the resolution then yields `list(P)` with the original P inside)"""
+    return fl.resolve(ast.Name(id=name, ctx=ast.Load()), at=at)
+
+
+def _fold_globals(e, repo, modname, keep=()):
+    """module-level numeric constants (tolerances ...) written as their literal value"""
+    mod = repo.module(modname)
+
+    class T(ast.NodeTransformer):
+        def visit_Name(self, node):
+            if isinstance(node.ctx, ast.Load) and node.id not in keep:
+                r = repo.resolve(mod.name, node.id)
+                if r and r[0] == "var" and r[1] in repo.modules:
+                    for st in repo.modules[r[1]].tree.body:
+                        if isinstance(st, (ast.Assign, ast.AnnAssign)) and st.value is not None:
+                            tg = st.targets if isinstance(st, ast.Assign) else [st.target]
+                            if any(isinstance(x, ast.Name) and x.id == r[2] for x in tg):
+                                v = order.fold_const(st.value)
+                                if v is not None:
+                                    return ast.Constant(v)
+            return node
+    return T().visit(F.clone(e))
 
 
 def g1_de_casteljau(ctx):
@@ -365,440 +1267,342 @@ def g1_de_casteljau(ctx):
     site = ctx.site(BEZ, fn)
     ps = au.params(fn)
     if len(ps) != 2:
-        ctx.fail("C19-G1", site, "de_casteljau does not take (control points, t)", "")
+        ctx.undecided("C19-G1", site, "de_casteljau does not take (control points, t)", "")
         return
     P, t = ps
-    # ---- the guard
-    guard_i = None
-    for i, st in enumerate(fn.body):
-        if isinstance(st, ast.If) and any(isinstance(s, ast.Raise) for s in st.body) and t in au.names(st.test):
-            guard_i = i
-            break
-    if guard_i is None:
-        _lost(ctx, "C19-G1", site, "range guard on t not found in de_casteljau",
-                 "parameters outside [0,1] must be rejected (InvalidRangeArgumentError), not extrapolated")
-    else:
-        g = fn.body[guard_i]
-        try:
-            wit, nenv = order.compare(g.test, f"{t} < 0 or {t} > 1", sym=lambda n: n.id if isinstance(n, ast.Name) else au.src(n))
-            ctx.check(wit is None, "C19-G1", ctx.site(BEZ, fn, g),
-                      f"range guard of de_casteljau is not `{t} < 0 or {t} > 1`",
-                      f"differs from the specification for {wit}: `{au.src(g.test)}`", note=f"guard agrees on {nenv} orderings")
-        except order.Unsupported as e:
-            ctx.fail("C19-G1", ctx.site(BEZ, fn, g), "range guard of de_casteljau is not a comparison predicate", str(e))
-        raises = isinstance(g.body[-1], ast.Raise) or all(isinstance(s, ast.Raise) for s in g.body)
-        ctx.check(raises and not g.orelse, "C19-G1", ctx.site(BEZ, fn, g), "range guard of de_casteljau does not end in a raise",
-                  "an out-of-range t must not continue into the blend", note="guard raises")
-        early = [st for st in fn.body[:guard_i] if t in au.names(st)]
-        ctx.check(not early, "C19-G1", ctx.site(BEZ, fn, g), "t is used before the range guard of de_casteljau",
-                  f"`{au.src(early[0])[:80] if early else ''}` runs before the guard", note="guard precedes every use of t")
-    # ---- fresh copy, entries only rebound
-    b = sym.Bindings(fn)
-    stores = [st for st in au.stmts(fn.body) if isinstance(st, (ast.Assign, ast.AugAssign))
-              for tg in au.assign_targets(st) if isinstance(tg, ast.Subscript)]
-    if not stores:
-        _lost(ctx, "C19-G1", site, "de_casteljau: blend store not found", "")
-    for st in stores:
-        tg = [x for x in au.assign_targets(st) if isinstance(x, ast.Subscript)][0]
-        root = tg.value
-        while isinstance(root, (ast.Subscript, ast.Attribute)):
-            root = root.value
-        name = root.id if isinstance(root, ast.Name) else None
-        d = _res(b, ast.Name(name, ast.Load()), at=st) if name else None
-        fresh = False
-        if name and name not in ps and d is not None and not isinstance(d, ast.Name):
-            if isinstance(d, (ast.ListComp, ast.List)):
-                fresh = True
-            elif isinstance(d, ast.Call) and au.call_tail(d) in ("list", "copy", "deepcopy", "array", "tuple"):
-                fresh = True
-            elif isinstance(d, ast.Subscript) and isinstance(d.slice, ast.Slice) and d.slice.lower is None and d.slice.upper is None:
-                fresh = au.call_tail(d.value) != "asarray" if isinstance(d.value, ast.Call) else not _is_ndarray_view(d)
-        ctx.check(fresh, "C19-G1", ctx.site(BEZ, fn, st),
-                  "de_casteljau writes into a list that is not a fresh copy of the control points",
-                  f"`{au.src(st)}` stores into `{name}` = `{au.src(d) if d is not None else '?'}`: the caller's control points "
-                  f"(BezierCurve.pts) are overwritten by the first evaluation", note="blend writes into a fresh copy")
-        ctx.check(isinstance(st, ast.Assign), "C19-G1", ctx.site(BEZ, fn, st),
-                  "de_casteljau updates an entry in place instead of rebinding it",
-                  f"`{au.src(st)}`: the copy is shallow, an augmented assignment mutates the caller's control point (Vec) itself",
-                  note="entries are rebound")
-    # no in-place method on the parameter / its elements
-    muts = [c for c in au.calls(fn) if isinstance(c.func, ast.Attribute) and c.func.attr in
-            ("append", "extend", "insert", "pop", "remove", "sort", "reverse", "clear", "fill", "normalize")
-            and P in au.names(c.func.value)]
+    _DC_PARAMS[:] = [P, t]
+    fl = F.Flow(fn)
+    # ---- the guard: the function raises exactly when t < 0 or t > 1, whatever the layout of the tests
+    from ..rules.c1120_util import paths
+    try:
+        allp = paths(fn.body)
+    except order.Unsupported as e:
+        allp = None
+        ctx.undecided("C19-G1", site, "range guard on t not found in de_casteljau", f"too many paths: {e}")
+    if allp is not None:
+        def tguards(p):
+            out = []
+            for tst, pol, kind in p.guards:
+                if kind != "if":
+                    continue
+                r = as_operators(_fold_globals(fl.resolve(tst, at=tst, keep=(t,)), repo, BEZ, keep=(t,)))
+                if t in au.names(r):
+                    out.append((r, pol, tst))
+            return out
+        guarded = [(p, tguards(p)) for p in allp]
+        raising = [(p, g) for p, g in guarded if p.end == "raise" and g]
+        going = [(p, g) for p, g in guarded if p.end != "raise"]
+        if not raising:
+            validators = [c for c in au.calls(fn) if not _is_dc(c) and au.call_tail(c) not in ("min", "max", "clip", "float", "abs", "len", "range")
+                          and any(isinstance(a, ast.Name) and a.id == t for a in list(c.args) + [k.value for k in c.keywords])]
+            has_raise = any(isinstance(s_, (ast.Raise, ast.Assert)) for s_ in au.stmts(fn.body))
+            if validators or has_raise:
+                ctx.undecided("C19-G1", site, "range guard on t not found in de_casteljau",
+                              "parameters outside [0,1] must be rejected (InvalidRangeArgumentError), not extrapolated")
+            else:
+                ctx.fail("C19-G1", site, "range guard on t not found in de_casteljau",
+                         "t is never tested and nothing is raised: parameters outside [0,1] are extrapolated instead of rejected "
+                         "(InvalidRangeArgumentError)")
+        else:
+            symf = lambda n: n.id if isinstance(n, ast.Name) else au.src(n)
+            pred = order.Pred(symf)
+            try:
+                for p, g in guarded:
+                    for r, pol, tst in g:
+                        pred.collect(r)
+                extra_num = sorted(x for x in pred.symbols if not x.startswith("?") and x != t)
+                if extra_num:
+                    raise order.Unsupported("the tests on t involve other quantities: " + ", ".join(extra_num))
+                flags = sorted(x for x in pred.symbols if x.startswith("?"))
+                wit = maybe = None
+                n_env = 0
+                for env0 in order.envs({t}, pred.consts | {0, 1}):
+                    n_env += 1
+                    outcomes = []
+                    for fv in itertools.product((False, True), repeat=len(flags)):
+                        env = dict(env0)
+                        env.update(zip(flags, fv))
+                        holds = lambda g: all(bool(pred.eval(r, env)) == pol for r, pol, tst in g)
+                        raises = any(holds(g) for p, g in raising)
+                        goes = any(holds(g) for p, g in going)
+                        outside = env[t] < 0 or env[t] > 1
+                        if outside and goes:
+                            outcomes.append("is evaluated although it is outside [0,1]")
+                        elif not outside and (raises and not goes):
+                            outcomes.append("is rejected although it lies in [0,1]")
+                        else:
+                            outcomes.append(None)
+                    if all(o is not None for o in outcomes):
+                        wit = (env0[t], outcomes[0])
+                        break
+                    if any(o is not None for o in outcomes) and maybe is None:
+                        maybe = (env0[t], next(o for o in outcomes if o))
+                if wit is None and maybe is not None:
+                    raise order.Unsupported(f"{t} = {maybe[0]} {maybe[1]} for some values of {flags}")
+                gnode = raising[0][1][0][2]
+                ctx.check(wit is None, "C19-G1", ctx.site(BEZ, fn, gnode),
+                          f"range guard of de_casteljau is not `{t} < 0 or {t} > 1`",
+                          f"{t} = {wit[0] if wit else ''} {wit[1] if wit else ''}: `{au.src(gnode)}`", note=f"guard agrees on {n_env} orderings")
+                # t is not rebound before it is tested
+                first_guard = min(getattr(tst, "lineno", 0) for p, g in raising for r, pol, tst in g)
+                early = [st for st in au.stmts(fn.body) if st.lineno < first_guard and isinstance(st, (ast.Assign, ast.AugAssign, ast.AnnAssign))
+                         and t in [n for tg in au.assign_targets(st) for n in au.assigned_names(tg)]]
+                ctx.check(not early, "C19-G1", ctx.site(BEZ, fn, gnode), "t is rebound or consumed before the range guard of de_casteljau",
+                          f"`{au.src(early[0])[:80] if early else ''}` runs before the guard", note="guard precedes every rebinding of t")
+            except (order.Unsupported, KeyError) as e:
+                ctx.undecided("C19-G1", site, "range guard of de_casteljau is not a comparison predicate on t", str(e))
+    # ---- no write through the argument
+    n_store = 0
+    for st in au.stmts(fn.body):
+        if not isinstance(st, (ast.Assign, ast.AugAssign)):
+            continue
+        for tg in au.assign_targets(st):
+            if not isinstance(tg, ast.Subscript):
+                continue
+            root = tg.value
+            while isinstance(root, (ast.Subscript, ast.Attribute)):
+                root = root.value
+            if not isinstance(root, ast.Name):
+                continue
+            n_store += 1
+            d = _resolve_object(fl, root.id, st, P)
+            kind, isfloat = _alias_kind(d, P)
+            s = ctx.site(BEZ, fn, st)
+            dsrc = au.src(d)[:80]
+            if kind == "alias":
+                ctx.fail("C19-G1", s, "de_casteljau writes into a list that is not a fresh copy of the control points",
+                         f"`{au.src(st)[:100]}` stores into `{dsrc}`, which can be the caller's control points themselves "
+                         f"(BezierCurve.pts / a float array passed by the caller): they are overwritten by the first evaluation")
+            elif kind is None:
+                ctx.undecided("C19-G1", s, "de_casteljau: the object an entry is stored into is not recognised", f"`{dsrc}`")
+            elif isinstance(st, ast.AugAssign) and kind == "shallow":
+                ctx.fail("C19-G1", s, "de_casteljau updates an entry in place instead of rebinding it",
+                         f"`{au.src(st)[:100]}`: the copy `{dsrc}` is shallow, an augmented assignment mutates the caller's control point (Vec) itself")
+            elif kind == "deep" and isfloat is not True and isinstance(d, ast.Call) and au.call_tail(d) in ("array", "asarray"):
+                ctx.fail("C19-G1", s, "de_casteljau stores the blend in place into an array that inherits the dtype of the control points",
+                         f"`{au.src(st)[:100]}` writes into `{dsrc}`: with integer control points every blended value is truncated to an integer "
+                         f"(the curve is not the Bernstein polynomial of an integer control polygon)")
+            else:
+                ctx.ok("C19-G1", s, "blend writes into a fresh copy")
+    if n_store == 0:
+        ctx.ok("C19-G1", site, "de_casteljau performs no in-place store")
+    # no in-place method on the parameter / its aliases
+    muts = []
+    for c in au.calls(fn):
+        if isinstance(c.func, ast.Attribute) and c.func.attr in ("append", "extend", "insert", "pop", "remove", "sort", "reverse", "clear", "fill",
+                                                                   "normalize", "resize", "put", "itemset"):
+            recv = fl.resolve(c.func.value, at=c)
+            k, _ = _alias_kind(recv, P) if not isinstance(recv, ast.Subscript) or isinstance(recv.slice, ast.Slice) else ("elem", None)
+            if k == "alias" or (k == "elem" and P in au.names(recv) ):
+                muts.append(c)
     ctx.check(not muts, "C19-G1", site, "de_casteljau mutates its control-point argument through a method call",
               f"`{au.src(muts[0]) if muts else ''}`", note="no in-place method on the control points")
-    # result = first entry of the blended list
+    # result = first entry of the blended list (or a recursive evaluation)
     rets = [st for st in au.stmts(fn.body) if isinstance(st, ast.Return)]
-    okr = bool(rets) and all(isinstance(r.value, ast.Subscript) and au.const(r.value.slice) == 0 for r in rets)
-    ctx.check(okr, "C19-G1", site, "de_casteljau does not return entry 0 of the blended list",
-              "after len(P)-1 rounds the value of the curve is the first entry", note="returns entry 0")
-    # ---- control points are consumed only through de_casteljau
-    n_reads = 0
+    verdict = []
+    for r in rets:
+        v = F.strip_calls(r.value, ("Vec", "array", "asarray", "copy")) if r.value is not None else None
+        if isinstance(v, ast.Subscript) and not isinstance(v.slice, (ast.Slice, ast.Tuple)):
+            k = order.fold_const(v.slice)
+            verdict.append("ok" if k == 0 else "wrong" if (k is not None and k > 0) else None)
+        elif _is_dc(v):
+            verdict.append("ok")
+        else:
+            verdict.append(None)
+    if not rets or any(v is None for v in verdict) and "wrong" not in verdict:
+        ctx.undecided("C19-G1", site, "de_casteljau: the returned entry is not recognised",
+                      "; ".join(au.src(r.value)[:60] for r in rets if r.value is not None))
+    else:
+        ctx.check("wrong" not in verdict, "C19-G1", site, "de_casteljau does not return entry 0 of the blended list",
+                  "after len(P)-1 rounds the value of the curve is the first entry", note="returns entry 0")
+    # ---- control points are never combined outside de_casteljau
     for cname in ("BezierCurve", "BezierPatch"):
         cls = repo.cls(BEZ, cname)
         for m in cls.body:
-            if not isinstance(m, ast.FunctionDef):
+            if not isinstance(m, ast.FunctionDef) or m.name == "__init__":
                 continue
             for n in au.walk(m):
-                if not au.is_self_attr(n, "pts") or not isinstance(n.ctx, ast.Load):
-                    continue
-                n_reads += 1
-                # climb to the consuming expression
-                ok = False
-                for a in au.ancestors(n):
-                    if isinstance(a, ast.Call) and au.call_tail(a) == "len":
-                        ok = True
-                        break
-                    if _is_dc(a) and a.args and any(x is n for x in au.walk(a.args[0])):
-                        ok = True
-                        break
-                    if isinstance(a, ast.stmt):
-                        break
-                ctx.check(ok, "C19-G1", ctx.site(BEZ, m, n),
-                          f"{cname}.{m.name} reads the control points outside a de_casteljau call",
-                          f"`{au.src(au.enclosing_stmt(n))[:100]}`: an evaluation that bypasses de_casteljau also bypasses its range guard",
-                          note=f"{cname}.{m.name}: control points go to de_casteljau / len")
-    _floor(ctx, "C19-G1", "C19-G1 control point reads", n_reads, 5)
+                if au.is_self_attr(n, "pts") and isinstance(n.ctx, ast.Load):
+                    v, why = _pts_use(n, m)
+                    s = ctx.site(BEZ, m, n)
+                    if v == "ok":
+                        ctx.ok("C19-G1", s, f"{cname}.{m.name}: control points go to de_casteljau / len")
+                    elif v == "bad":
+                        ctx.fail("C19-G1", s, f"{cname}.{m.name} reads the control points outside a de_casteljau call",
+                                 f"`{au.src(au.enclosing_stmt(n))[:100]}`: {why}; an evaluation that bypasses de_casteljau also bypasses its range guard")
+                    else:
+                        ctx.undecided("C19-G1", s, f"{cname}.{m.name}: a use of the control points is not recognised", why)
     # ---- evaluation methods return de_casteljau results and forward their parameters
-    n_eval = 0
     for cname, mname in (("BezierCurve", "evaluate"), ("BezierPatch", "_evaluate_row"), ("BezierPatch", "evaluate")):
         m = repo.func(BEZ, f"{cname}.{mname}")
-        bm = sym.Bindings(m)
+        fm = F.Flow(m)
         mps = au.params(m, skip_self=True)
-        rets = [st for st in au.stmts(m.body) if isinstance(st, ast.Return)]
-        n_eval += 1
-        good = bool(rets)
-        used = set()
+        required = set(mps) - G.defaulted_params(m) - {p.arg for p, d in zip(m.args.kwonlyargs, m.args.kw_defaults) if d is not None}
+        rets = [st for st in au.stmts(m.body) if isinstance(st, ast.Return) and st.value is not None]
+        used, modified, unknown = set(), [], []
         for r in rets:
-            e = _res(bm, r.value, at=r) if r.value is not None else None
-            if isinstance(e, (ast.ListComp, ast.GeneratorExp)):
-                e = e.elt
-            if not _is_dc(e) or len(e.args) != 2:
-                good = False
-                continue
-            # t-argument: one of the method's parameters, unmodified
-            if not (isinstance(e.args[1], ast.Name) and e.args[1].id in mps):
-                good = False
-            else:
-                used.add(e.args[1].id)
-            for c in au.calls(e.args[0]):
-                if au.call_tail(c) in ("_evaluate_row", "evaluate") and isinstance(c.func, ast.Attribute) and au.is_self_attr(c.func):
-                    used |= {a.id for a in c.args if isinstance(a, ast.Name)}
-        ctx.check(good and used == set(mps), "C19-G1", ctx.site(BEZ, m),
-                  f"{cname}.{mname} does not return de_casteljau(...) of its own parameter(s) {mps}",
-                  f"returns `{'; '.join(au.src(r.value) for r in rets if r.value is not None)}`; parameters reaching de_casteljau unmodified: {sorted(used)}",
-                  note=f"{cname}.{mname} -> de_casteljau with {sorted(used)}")
+            e = unpartial(fm.resolve(r.value, at=r, keep=tuple(mps)))
+            for conds, leaf in F.alternatives(e):
+                leaf = F.strip_calls(leaf, ("Vec", "array", "asarray", "list", "tuple"))
+                elts = [leaf]
+                if isinstance(leaf, (ast.ListComp, ast.GeneratorExp)):
+                    elts = [leaf.elt]
+                elif isinstance(leaf, (ast.List, ast.Tuple)) and not leaf.elts and isinstance(r.value, ast.Name):
+                    # a list filled by appends in a loop
+                    elts = [fm.resolve(c.args[0], at=c, keep=tuple(mps)) for c in au.calls(m) if au.call_tail(c) == "append" and c.args
+                            and isinstance(c.func, ast.Attribute) and isinstance(c.func.value, ast.Name) and c.func.value.id == r.value.id] or [leaf]
+                for x in elts:
+                    x = F.strip_calls(x, ("Vec", "array", "asarray"))
+                    if not _is_dc(x):
+                        # a violation is an arithmetic combination of control points / evaluations with a parameter of the method;
+                        # a call the rule cannot see through is not
+                        arith = isinstance(x, (ast.BinOp, ast.UnaryOp)) or (isinstance(x, ast.Call) and au.call_tail(x) in ("sum", "dot", "einsum", "matmul", "tensordot", "average", "mean"))
+                        touches = any(au.is_self_attr(y, "pts") or _is_eval_call(y) for y in ast.walk(x))
+                        (modified if (touches and arith) else unknown).append(f"`{au.src(x)[:80]}` is not a de_casteljau evaluation")
+                        continue
+                    targ = _dc_arg(x, 1)
+                    targ = F.strip_calls(targ, ("float", "float64", "asarray", "item", "squeeze")) if targ is not None else None
+                    if isinstance(targ, ast.Name) and targ.id in mps:
+                        used.add(targ.id)
+                    elif targ is not None and (au.names(targ) & set(mps)):
+                        modified.append(f"parameter passed as `{au.src(targ)[:60]}`")
+                    else:
+                        unknown.append(f"parameter argument `{au.src(targ)[:60] if targ is not None else None}`")
+                    first = _dc_arg(x, 0)
+                    for c in ast.walk(first) if first is not None else []:
+                        if isinstance(c, ast.Call) and isinstance(c.func, ast.Attribute) and au.is_self_attr(c.func) and c.func.attr in EVAL_METHODS:
+                            used |= {a.id for a in c.args if isinstance(a, ast.Name) and a.id in mps}
+        s = ctx.site(BEZ, m)
+        if modified or (rets and not unknown and not required <= used):
+            ctx.fail("C19-G1", s, f"{cname}.{mname} does not return de_casteljau(...) of its own parameter(s) {sorted(required)}",
+                     f"returns `{'; '.join(au.src(r.value)[:80] for r in rets)}`; parameters reaching de_casteljau unmodified: {sorted(used)}"
+                     + (f"; {modified[0]}" if modified else ""))
+        elif unknown or not rets:
+            ctx.undecided("C19-G1", s, f"{cname}.{mname}: the returned evaluation is not recognised", "; ".join(unknown)[:200])
+        else:
+            ctx.ok("C19-G1", s, f"{cname}.{mname} -> de_casteljau with {sorted(used)}")
     # ---- exports evaluate through the class
     for cname, mname in (("BezierCurve", "as_polyline"), ("BezierPatch", "as_surface")):
         m = repo.func(BEZ, f"{cname}.{mname}")
-        bm = sym.Bindings(m)
-        apps = [c for c in au.calls(m) if au.call_tail(c) == "append" and isinstance(c.func.value, ast.Attribute)
-                and c.func.value.attr == "vertices" and c.args]
-        if not apps:
-            ctx.fail("C19-G1", ctx.site(BEZ, m), f"{cname}.{mname}: vertex append not found", "")
-        for c in apps:
-            n_eval += 1
-            e = _res(bm, c.args[0], at=c)
-            ok = any(_is_dc(x) or (isinstance(x, ast.Call) and isinstance(x.func, ast.Attribute) and au.is_self_attr(x.func)
-                                   and x.func.attr in ("evaluate", "_evaluate_row")) for x in au.walk(e))
-            ctx.check(ok, "C19-G1", ctx.site(BEZ, m, c), f"{cname}.{mname} appends a vertex that is not an evaluation of the curve / patch",
-                      f"`{au.src(c)}` resolves to `{au.src(e)[:100]}`", note=f"{cname}.{mname}: vertices are evaluations")
-    _floor(ctx, "C19-G1", "C19-G1 evaluation sites", n_eval, 6)
+        fm = F.Flow(m)
+        vals = []
+        for st in au.stmts(m.body):
+            if isinstance(st, ast.Expr) and isinstance(st.value, ast.Call) and isinstance(st.value.func, ast.Attribute) \
+                    and st.value.func.attr in ("append", "extend") and isinstance(st.value.func.value, ast.Attribute) \
+                    and st.value.func.value.attr == "vertices" and st.value.args:
+                vals.append((st, st.value.args[0]))
+            elif isinstance(st, ast.AugAssign) and isinstance(st.target, ast.Attribute) and st.target.attr == "vertices":
+                vals.append((st, st.value))
+        if not vals:
+            ctx.undecided("C19-G1", ctx.site(BEZ, m), f"{cname}.{mname}: vertex append not found", "")
+        for st, v in vals:
+            e = fm.resolve(v, at=st)
+            verdicts = []
+            for conds, leaf in F.alternatives(e):
+                if any(_is_eval_call(x) for x in ast.walk(leaf)):
+                    verdicts.append("ok")
+                elif any(au.is_self_attr(x, "pts") for x in ast.walk(leaf)):
+                    verdicts.append("bad")
+                else:
+                    verdicts.append(None)
+            s = ctx.site(BEZ, m, st)
+            if "bad" in verdicts:
+                ctx.fail("C19-G1", s, f"{cname}.{mname} appends a vertex that is not an evaluation of the curve / patch",
+                         f"`{au.src(st)[:80]}` resolves to `{au.src(e)[:100]}`")
+            elif None in verdicts:
+                ctx.undecided("C19-G1", s, f"{cname}.{mname}: the origin of an appended vertex is not recognised", f"`{au.src(e)[:120]}`")
+            else:
+                ctx.ok("C19-G1", s, f"{cname}.{mname}: vertices are evaluations")
 
 
-def _is_ndarray_view(d):
-    return False
+def _pts_use(n, fn, depth=0):
+    """classify one read of the control points (node `n`): ('ok' | 'bad' | None, reason)"""
+    if depth > 4:
+        return None, "alias chain too long"
+    child = n
+    for a in au.ancestors(n):
+        if isinstance(a, ast.keyword):
+            continue
+        if isinstance(a, ast.Call):
+            if au.call_tail(a) == "len" and any(child is x for x in a.args):
+                return "ok", ""
+            if _is_dc(a) and a.args and (child is a.args[0] or any(x is child for x in ast.walk(a.args[0]))):
+                return "ok", ""
+            if _is_dc(a) and any(k.arg == _DC_PARAMS[0] and (child is k.value or any(x is child for x in ast.walk(k.value))) for k in a.keywords):
+                return "ok", ""
+            if any(child is x for x in a.args) or any(child is k.value for k in a.keywords):
+                t = au.call_tail(a)
+                if t in ("enumerate", "zip", "list", "tuple", "reversed", "iter"):
+                    child = a
+                    continue
+                mparams = set(au.params(fn, skip_self=True))
+                others = [x for x in list(a.args) + [k.value for k in a.keywords] if x is not child]
+                if any(au.names(x) & mparams for x in others):
+                    return None, f"control points and a parameter of the method are passed to `{au.src(a.func)[:40]}`"
+                return "ok", ""      # conversion / export of the control points (no evaluation parameter involved)
+        if isinstance(a, ast.Subscript) and child is a.value:
+            child = a
+            continue
+        if isinstance(a, ast.Attribute) and child is a.value:
+            if a.attr in ("size", "shape", "dtype", "ndim"):
+                return "ok", ""
+            child = a
+            continue
+        if isinstance(a, (ast.BinOp, ast.UnaryOp, ast.AugAssign)):
+            top = a
+            for up in au.ancestors(a):
+                if isinstance(up, (ast.BinOp, ast.UnaryOp)):
+                    top = up
+                else:
+                    break
+            mparams = set(au.params(fn, skip_self=True))
+            if au.names(top) & mparams:
+                return "bad", "a control point is combined arithmetically with a parameter of the method"
+            return "ok", ""
+        if isinstance(a, ast.Compare):
+            return "ok", ""
+        if isinstance(a, ast.comprehension) and child is a.iter:
+            comp = au.parent(a)
+            return _alias_uses(au.assigned_names(a.target), [comp.elt] if hasattr(comp, "elt") else [comp.key, comp.value], fn, depth)
+        if isinstance(a, (ast.For, ast.AsyncFor)) and child is a.iter:
+            return _alias_uses(au.assigned_names(a.target), a.body, fn, depth)
+        if isinstance(a, ast.Assign) and child is a.value:
+            names = [x for t_ in a.targets for x in au.assigned_names(t_)]
+            blk, _ = au.enclosing_block(a)
+            rest = blk[[id(x) for x in blk].index(id(a)) + 1:] if blk else []
+            return _alias_uses(names, rest, fn, depth)
+        if isinstance(a, ast.Return):
+            return "ok", ""         # accessor
+        if isinstance(a, ast.stmt):
+            return "ok", ""
+        child = a
+    return None, "?"
+
+
+def _alias_uses(names, region, fn, depth):
+    verdict = "ok"
+    why = ""
+    found = False
+    for r in region:
+        for x in ast.walk(r):
+            if isinstance(x, ast.Name) and x.id in names and isinstance(x.ctx, ast.Load):
+                found = True
+                v, w = _pts_use(x, fn, depth + 1)
+                if v == "bad":
+                    return "bad", w
+                if v is None:
+                    verdict, why = None, w
+    if not found:
+        return "ok", ""
+    return verdict, why
 
 
 # ----------------------------------------------------------------------- C19-S1
 def s1_as_surface(ctx):
-    key = (BEZ, "BezierPatch.as_surface")
-    fn = ctx.repo.func(*key)
-    site = ctx.site(BEZ, fn)
-    g = G.GridFn(fn)
-    ps = au.params(fn, skip_self=True)
-    g.param_min.update({p: 2 for p in ps[:2]})
-    n = 0
-    try:
-        runs = g.runs()
-        run = runs[0]
-        nest = G.rect_nest(run)
-        if nest is None:
-            raise G.Unsupported("no rectangular vertex loop nest (one append per innermost iteration)")
-        failed = set()
-        for em, k, a, role, c, exp, ok in G.stride_obligations(g, run, nest):
-            n += 1
-            s = ctx.site(BEZ, fn, em.stmt)
-            if ok:
-                ctx.ok("C19-S1", s, f"as_surface: {role} atom {a} has coefficient {c} in {em.kind} index {k}")
-                continue
-            failed.add((em.key, k))
-            w = G.stride_witness(g, run, nest, em, k, c, exp)
-            if w is None:
-                ctx.declare_unsupported(f"as_surface: stride `{c}` differs syntactically from `{exp}` but no concrete witness was found")
-                continue
-            construct = (f"row stride of the stored vertex indices is `{c}` but a row of the vertex loop holds `{exp}` vertices"
-                         if role == "row" else f"column step of the stored vertex indices is `{c}` instead of 1")
-            ctx.fail("C19-S1", s, construct, f"vertex (r, c) of the patch has index r*({nest[2].trip}) + c; witness {w}",
-                     index=au.src(g.index_expr(em, k, run)))
-        vsite, outer, inner = nest
-        for em in run.emits:
-            if em.kind not in ("faces", "edges", "vertices-attr"):
-                continue
-            try:
-                polys = g.index_polys(em, run)
-            except G.Unsupported as e:
-                n += 1
-                ctx.fail("C19-S1", ctx.site(BEZ, fn, em.stmt), f"{em.kind} index of as_surface not found in a recognisable form", str(e))
-                continue
-            for k, P in enumerate(polys):
-                if (em.key, k) in failed:
-                    continue
-                n += 1
-                s = ctx.site(BEZ, fn, em.stmt)
-                if g.prove_in_range(P, em, run, run.V):
-                    ctx.ok("C19-S1", s, f"as_surface: {em.kind} index {P} in [0, {run.V})")
-                else:
-                    w = g.witness_out_of_range(em, k, run)
-                    if w:
-                        ctx.fail("C19-S1", s, f"{em.kind} index `{P}` leaves [0, |V|) with |V| = {run.V}",
-                                 f"witness {G.fmt_env(w['params'])}: index {w['index']} at iteration ({G.fmt_env(w['iteration'])}) "
-                                 f"with {w['n_vertices']} vertices", witness=w)
-                    else:
-                        ctx.ok("C19-S1", s, f"as_surface: {em.kind} index {P}: no violation for parameters <= {G.MAXPARAM}")
-                        ctx.declare_unsupported(f"as_surface: index `{P}` not proved for all parameters")
-                if em.kind == "vertices-attr":
-                    # key of the attribute written next to the append = index of that vertex
-                    n += 1
-                    appl, ok, want, wtxt = G.attr_key_check(g, run, nest, em, P)
-                    ctx.check(appl and ok, "C19-S1", s,
-                              f"uv attribute key `{P}` is not the index `{want}` of the vertex appended in the same iteration",
-                              wtxt or "the attribute is not written in the vertex loop nest",
-                              note="uv key = running vertex index")
-        # counts
-        n += 2
-        A, B = outer.trip, inner.trip
-        ctx.check(run.V == A * B and {str(x) for x in (A, B)} == set(ps[:2]), "C19-S1", site,
-                  f"as_surface creates `{run.V}` vertices, not n1*n2 of its two resolutions {ps[:2]}", "", note=f"|V| = {run.V}")
-        F = Poly()
-        arity = set()
-        for em in run.emits:
-            if em.kind == "faces":
-                F = F + g.count(em, run)
-                arity.add(len(em.idx))
-        ctx.check(F == (A - 1) * (B - 1) and arity == {4}, "C19-S1", site,
-                  f"as_surface creates `{F}` faces of arity {sorted(arity)}, not (n1-1)*(n2-1) quads",
-                  "one quad per cell of the sample grid", note=f"|F4| = {F}")
-    except G.Unsupported as e:
-        _lost(ctx, "C19-S1", site, "index arithmetic of BezierPatch.as_surface not found in a recognisable form", str(e))
-        return
-    # parameter samples indexed over their whole linspace
-    b = sym.Bindings(fn)
-    for sub in [x for x in au.walk(fn) if isinstance(x, ast.Subscript) and isinstance(x.ctx, ast.Load) and isinstance(x.value, ast.Name)
-                and isinstance(x.slice, ast.Name)]:
-        d = _res(b, sub.value, at=sub)
-        if not (isinstance(d, ast.Call) and au.call_tail(d) == "linspace" and len(d.args) >= 3):
-            continue
-        loops = [a for a in au.ancestors(sub) if isinstance(a, ast.For) and isinstance(a.target, ast.Name) and a.target.id == sub.slice.id]
-        if not loops or not (isinstance(loops[0].iter, ast.Call) and au.call_tail(loops[0].iter) == "range" and len(loops[0].iter.args) == 1):
-            continue
-        n += 1
-        trip = sym.to_poly(_res(b, loops[0].iter.args[0], at=loops[0]))
-        cnt = sym.to_poly(_res(b, d.args[2], at=sub))
-        ctx.check(trip == cnt, "C19-S1", ctx.site(BEZ, fn, sub),
-                  f"`{au.src(sub)}` indexes a linspace of `{cnt}` samples with a loop of `{trip}` iterations",
-                  f"for {trip} > {cnt} the index runs past the samples, for {trip} < {cnt} the patch is not covered up to parameter 1",
-                  note=f"{au.src(sub)}: loop covers the linspace")
-    _floor(ctx, "C19-S1", "C19-S1 obligations", n, 16)
-
-
-# ----------------------------------------------------------------------- C19-F1
-def f1_drawn_element(ctx):
-    n = 0
-    for name, container in (("sample_polyline", "edges"), ("sample_surface", "faces")):
-        fn = ctx.repo.func(SAMP, name)
-        site = ctx.site(SAMP, fn)
-        b = sym.Bindings(fn)
-        mesh_p = au.params(fn)[0]
-        loop = None
-        for st in au.stmts(fn.body):
-            if isinstance(st, ast.For) and isinstance(st.iter, ast.Call) and au.call_tail(st.iter) == "enumerate" and st.iter.args \
-                    and isinstance(st.target, ast.Tuple) and len(st.target.elts) == 2 \
-                    and all(isinstance(x, ast.Name) for x in st.target.elts) \
-                    and any(isinstance(s_, ast.Assign) and isinstance(s_.targets[0], ast.Subscript) for s_ in st.body):
-                loop = st
-        if loop is None:
-            _lost(ctx, "C19-F1", site, f"{name}: fill loop `for i, elem in enumerate(drawn elements)` not found", "")
-            continue
-        idx_var, val_var = loop.target.elts[0].id, loop.target.elts[1].id
-        drawn = loop.iter.args[0]
-        # the drawn array comes from choice(...) (or the single-element fallback)
-        d = _res(b, drawn, at=loop)
-        # element rows read in the loop body
-        reads = [x for s_ in loop.body for x in au.walk(s_) if isinstance(x, ast.Subscript) and isinstance(x.value, ast.Attribute)
-                 and x.value.attr in ("edges", "faces", "cells") and isinstance(x.ctx, ast.Load)]
-        n += 1
-        ok = bool(reads) and all(au.src(x.value) == f"{mesh_p}.{container}" and isinstance(x.slice, ast.Name) and x.slice.id == val_var
-                                 for x in reads)
-        ctx.check(ok, "C19-F1", ctx.site(SAMP, fn, reads[0] if reads else loop),
-                  f"{name}: the combined vertices are not those of the drawn element (row of `{container}` selected by the loop value)",
-                  f"vertices are read from `{', '.join(sorted({au.src(x) for x in reads})) or 'nothing'}` instead of "
-                  f"`{mesh_p}.{container}[{val_var}]`: sample {idx_var} must lie on the element drawn for it; indexing by the sample "
-                  f"counter ignores the length / area weighting",
-                  note=f"{name}: vertices of the drawn element {mesh_p}.{container}[{val_var}]")
-        if name == "sample_surface":
-            # normals: face_normals(mesh)[f] for f in the same drawn array
-            comps = [x for x in au.walk(fn) if isinstance(x, (ast.ListComp, ast.GeneratorExp)) and isinstance(x.elt, ast.Subscript)
-                     and isinstance(x.elt.value, ast.Name)
-                     and isinstance(_res(b, x.elt.value, at=x), ast.Call) and au.call_tail(_res(b, x.elt.value, at=x)) == "face_normals"]
-            n += 1
-            if len(comps) != 1:
-                _lost(ctx, "C19-F1", site, "sample_surface: normals of the drawn faces (`face_normals(mesh)[f] for f in drawn`) not found",
-                         f"{len(comps)} comprehension(s) over face_normals")
-            else:
-                c = comps[0]
-                g0 = c.generators[0]
-                fnc = _res(b, c.elt.value, at=c)
-                ok = len(c.generators) == 1 and not g0.ifs and isinstance(g0.target, ast.Name) and au.same(g0.iter, drawn) \
-                    and isinstance(c.elt.slice, ast.Name) and c.elt.slice.id == g0.target.id \
-                    and fnc.args and isinstance(fnc.args[0], ast.Name) and fnc.args[0].id == mesh_p
-                ctx.check(ok, "C19-F1", ctx.site(SAMP, fn, c),
-                          "sample_surface: returned normals are not face_normals(mesh) indexed by the drawn faces in order",
-                          f"`{au.src(c)}` vs drawn faces `{au.src(drawn)}`: the i-th normal must be the normal of the face the i-th "
-                          f"point was drawn on",
-                          note="normals indexed by the drawn faces, in order")
-    _floor(ctx, "C19-F1", "C19-F1 obligations", n, 3)
-
-
-# ----------------------------------------------------------------------- C19-W1
-def w1_probabilities(ctx):
-    n = 0
-    for name, container, measure in (("sample_polyline", "edges", "edge_length"), ("sample_surface", "faces", "face_area")):
-        fn = ctx.repo.func(SAMP, name)
-        site = ctx.site(SAMP, fn)
-        b = sym.Bindings(fn)
-        mesh_p = au.params(fn)[0]
-        draws = [c for c in au.calls(fn) if au.call_tail(c) == "choice"]
-        n += 1
-        if len(draws) != 1:
-            _lost(ctx, "C19-W1", site, f"{name}: the weighted draw `choice(n_elements, size=n_pts, p=weights)` not found",
-                     f"{len(draws)} call(s) of choice")
-            continue
-        c = draws[0]
-        s = ctx.site(SAMP, fn, c)
-        pop = _res(b, c.args[0], at=c) if c.args else None
-        okpop = pop is not None and au.src(pop) == f"len({mesh_p}.{container})"
-        ctx.check(okpop, "C19-W1", s, f"{name}: elements are not drawn among range(len({mesh_p}.{container}))",
-                  f"population `{au.src(pop) if pop is not None else None}`", note=f"{name}: population len({mesh_p}.{container})")
-        pk = next((k.value for k in c.keywords if k.arg == "p"), c.args[3] if len(c.args) > 3 else None)
-        n += 2
-        if not isinstance(pk, ast.Name):
-            ctx.fail("C19-W1", s, f"{name}: the draw has no weight array `p=` (uniform over {container})",
-                     f"`{au.src(c)}`: the share of samples per element must follow its {measure.split('_')[1]}, not be uniform")
-            continue
-        w = pk.id
-        # provenance: w = measure(mesh, ...)[.as_array()]  then  w /= np.sum(w)   before the draw
-        src_ok = norm_ok = False
-        for st in au.stmts(fn.body):
-            if isinstance(st, ast.Assign) and any(isinstance(t, ast.Name) and t.id == w for t in st.targets):
-                rv = _res(b, st.value, at=st, keep=(w, mesh_p))   # `a = edge_length(mesh); w = a.as_array()` is the same provenance
-                calls = [x for x in au.walk(rv) if isinstance(x, ast.Call) and au.call_tail(x) == measure]
-                if calls and calls[0].args and isinstance(calls[0].args[0], ast.Name) and calls[0].args[0].id == mesh_p:
-                    src_ok = True
-                # w = w / np.sum(w)
-                v = st.value
-                if isinstance(v, ast.BinOp) and isinstance(v.op, ast.Div) and isinstance(v.left, ast.Name) and v.left.id == w \
-                        and _is_sum_of(v.right, w):
-                    norm_ok = True
-            if isinstance(st, ast.AugAssign) and isinstance(st.target, ast.Name) and st.target.id == w and isinstance(st.op, ast.Div) \
-                    and _is_sum_of(st.value, w):
-                norm_ok = True
-        ctx.check(src_ok, "C19-W1", s, f"{name}: the draw weights are not {measure}({mesh_p})",
-                  f"`p={w}` must hold the {measure.split('_')[1]} of every element of {mesh_p}.{container}", note=f"{name}: weights = {measure}")
-        ctx.check(norm_ok, "C19-W1", s, f"{name}: the draw weights are not divided by their own sum",
-                  f"`{w}` must be normalised by np.sum({w}) to be the probability of each element", note=f"{name}: weights normalised by their sum")
-    _floor(ctx, "C19-W1", "C19-W1 obligations", n, 6)
-
-
-def _is_sum_of(e, w):
-    return isinstance(e, ast.Call) and au.call_tail(e) == "sum" and (
-        (e.args and isinstance(e.args[0], ast.Name) and e.args[0].id == w) or
-        (isinstance(e.func, ast.Attribute) and isinstance(e.func.value, ast.Name) and e.func.value.id == w))
-
-
-# ----------------------------------------------------------------------- C19-W2
-def _defs_of(fn, name):
-    """all statements of fn that (re)bind `name` (Assign / AugAssign / AnnAssign / loop or with targets)"""
-    out = []
-    for st in au.stmts(fn.body):
-        if isinstance(st, (ast.Assign, ast.AnnAssign, ast.AugAssign)):
-            if any(name in au.assigned_names(t) for t in au.assign_targets(st)):
-                out.append(st)
-        elif isinstance(st, (ast.For, ast.AsyncFor)) and name in au.assigned_names(st.target):
-            out.append(st)
-        elif isinstance(st, (ast.With, ast.AsyncWith)) and any(it.optional_vars is not None and name in au.assigned_names(it.optional_vars)
-                                                                 for it in st.items):
-            out.append(st)
-    return out
-
-
-def _self_update(st, w):
-    """`w /= f(w)`, `w = w / f(w)`, `w = w * c`, `w = np.asarray(w)` ... : a rebinding of w computed from w alone"""
-    if isinstance(st, ast.AugAssign) and isinstance(st.target, ast.Name) and st.target.id == w:
-        return True
-    if isinstance(st, ast.Assign) and len(st.targets) == 1 and isinstance(st.targets[0], ast.Name) and st.targets[0].id == w:
-        return w in au.names(st.value)
-    return False
-
-
-def w2_fresh_weights(ctx):
-    n = 0
-    for name, container, measure in (("sample_polyline", "edges", "edge_length"), ("sample_surface", "faces", "face_area")):
-        fn = ctx.repo.func(SAMP, name)
-        site = ctx.site(SAMP, fn)
-        b = sym.Bindings(fn)
-        mesh_p = au.params(fn)[0]
-        draws = [c for c in au.calls(fn) if au.call_tail(c) == "choice"]
-        pk = None
-        if len(draws) == 1:
-            pk = next((k.value for k in draws[0].keywords if k.arg == "p"), draws[0].args[3] if len(draws[0].args) > 3 else None)
-        if not isinstance(pk, ast.Name):
-            n += 1
-            _lost(ctx, "C19-W2", site, f"{name}: weight array of the draw not found", "reported in detail by C19-W1")
-            continue
-        w = pk.id
-        defs = _defs_of(fn, w)
-        if not defs:
-            n += 1
-            _lost(ctx, "C19-W2", site, f"{name}: definition of the draw weights `{w}` not found", "the weights must be computed in this call")
-            continue
-        n_src = 0
-        for st in defs:
-            if _self_update(st, w):
-                # must not mix in anything stored: only w itself, numpy, constants
-                stored = [c for c in au.calls(st) if au.call_tail(c) in ("get_attribute", "has_attribute", "attribute")]
-                n += 1
-                ctx.check(not stored, "C19-W2", ctx.site(SAMP, fn, st),
-                          f"{name}: the draw weights are combined with a stored attribute", f"`{au.src(st)[:120]}`",
-                          note=f"{name}: `{au.src(st)[:60]}` rescales the weights")
-                continue
-            n += 1
-            n_src += 1
-            val = st.value if isinstance(st, (ast.Assign, ast.AnnAssign)) else None
-            e = _res(b, val, at=st, keep=(w, mesh_p)) if val is not None else None
-            calls = [x for x in au.walk(e) if isinstance(x, ast.Call) and au.call_tail(x) == measure] if e is not None else []
-            fresh = bool(calls) and all(c.args and isinstance(c.args[0], ast.Name) and c.args[0].id == mesh_p for c in calls)
-            stored = [c for c in (au.walk(e) if e is not None else []) if isinstance(c, ast.Call)
-                      and au.call_tail(c) in ("get_attribute", "has_attribute", "attribute")]
-            ctx.check(fresh and not stored, "C19-W2", ctx.site(SAMP, fn, st),
-                      f"{name}: a definition of the draw weights is not computed from {measure}({mesh_p}) in this call",
-                      f"`{au.src(st)[:140]}`: weights read back from a stored attribute (or from anything but the current geometry) are "
-                      f"stale once the vertices have moved - the share of samples per element no longer follows its {measure.split('_')[1]}",
-                      note=f"{name}: weights = {measure}({mesh_p}) computed in the call")
-        if n_src == 0:
-            n += 1
-            _lost(ctx, "C19-W2", site, f"{name}: definition of the draw weights `{w}` from {measure} not found", "")
-    _floor(ctx, "C19-W2", "C19-W2 obligations", n, 4)
+    spec = GenSpec(BEZ, "BezierPatch.as_surface", {"n1": (2, 5), "n2": (2, 5)}, [], topo="disk", self_obj=X.Opaque("self"),
+                   counts=lambda p: {"V": "n1*n2", "F": {4: "(n1-1)*(n2-1)"}}, assoc=True, samples=True)
+    r = {"range": "C19-S1", "table": "C19-S1", "counts": "C19-S1", "assoc": "C19-S1"}
+    C.check_generator(ctx, spec, r)
 
 
 # ----------------------------------------------------------------------- C19-E1
@@ -876,6 +1680,36 @@ def _vec_eval(e, env, props, depth=0):
         if isinstance(t, tuple):
             raise _NoEval("vector condition")
         return rec(e.body) if t else rec(e.orelse)
+    if isinstance(e, (ast.ListComp, ast.GeneratorExp)) and len(e.generators) == 1 and not e.generators[0].ifs:
+        g = e.generators[0]
+        it = g.iter
+        # `for a, b in zip(self.mini, self.maxi)` / `for i in range(self.dim)`
+        if isinstance(it, ast.Call) and au.call_tail(it) == "zip" and isinstance(g.target, ast.Tuple) and len(g.target.elts) == len(it.args) \
+                and all(isinstance(x, ast.Name) for x in g.target.elts):
+            seqs = [rec(a) for a in it.args]
+            if not all(isinstance(s, tuple) for s in seqs):
+                raise _NoEval("zip of scalars")
+            out = []
+            for vals in zip(*seqs):
+                sub = sym.subst(e.elt, {x.id: ast.Constant(v) for x, v in zip(g.target.elts, vals)})
+                out.append(_vec_eval(sub, env, props, depth))
+            return tuple(out)
+        if isinstance(it, ast.Call) and au.call_tail(it) == "range" and len(it.args) == 1 and isinstance(g.target, ast.Name):
+            n = rec(it.args[0])
+            if not isinstance(n, int):
+                raise _NoEval("range of a non-integer")
+            out = []
+            for k in range(n):
+                sub = sym.subst(e.elt, {g.target.id: ast.Constant(k)})
+                out.append(_vec_eval(sub, env, props, depth))
+            return tuple(out)
+        raise _NoEval("comprehension")
+    if isinstance(e, ast.Subscript):
+        v = rec(e.value)
+        k = rec(e.slice) if not isinstance(e.slice, ast.Slice) else None
+        if isinstance(v, tuple) and isinstance(k, int) and not isinstance(k, bool) and -len(v) <= k < len(v):
+            return v[k]
+        raise _NoEval("subscript")
     if isinstance(e, ast.Call):
         tail = au.call_tail(e)
         args = [rec(a) for a in e.args]
@@ -927,27 +1761,27 @@ def e1_empty_box(ctx):
     repo = ctx.repo
     fn = repo.func(AABB, "AABB.is_empty")
     site = ctx.site(AABB, fn)
-    cls = repo.cls(AABB, "AABB")
-    props = {}
-    for m in cls.body:
-        if isinstance(m, ast.FunctionDef) and any(isinstance(d, ast.Name) and d.id == "property" for d in m.decorator_list):
-            r = [st.value for st in au.stmts(m.body) if isinstance(st, ast.Return) and st.value is not None]
-            if len(r) == 1:
-                props[m.name] = r[0]
+    props = _aabb_props(ctx)
+    flm = F.Flow(fn)
     try:
-        formula = order.return_formula(fn.body)
+        formula = order.return_formula([st for st in fn.body if not isinstance(st, (ast.Assign, ast.AnnAssign))])
     except order.Unsupported as e:
         formula = None
-        _lost(ctx, "C19-E1", site, "AABB.is_empty is no longer an if/return chain of a per-axis predicate", str(e))
+        ctx.undecided("C19-E1", site, "AABB.is_empty is no longer an if/return chain of a per-axis predicate", str(e))
+
+    helpers = _aabb_helpers(ctx)
+
+    def res(e):
+        return as_operators(inline_self(flm.resolve(e, at=e) if getattr(e, "_parent", None) is not None else e, helpers))
 
     def evf(f, env):
         if f[0] == "ite":
-            t = _vec_eval(f[1], env, props)
+            t = _vec_eval(res(f[1]), env, props)
             if isinstance(t, tuple):
                 raise _NoEval("vector condition")
             return evf(f[2], env) if t else evf(f[3], env)
         if f[0] == "ret" and f[1] is not None:
-            v = _vec_eval(f[1], env, props)
+            v = _vec_eval(res(f[1]), env, props)
             if isinstance(v, tuple):
                 raise _NoEval("returns a vector")
             return bool(v)
@@ -970,7 +1804,7 @@ def e1_empty_box(ctx):
         except _NoEval as e:
             reason = str(e)
         if reason is not None:
-            _lost(ctx, "C19-E1", site, "AABB.is_empty is not found in a form the per-axis evaluation recognises", reason)
+            ctx.undecided("C19-E1", site, "AABB.is_empty is not found in a form the per-axis evaluation recognises", reason)
         else:
             ctx.check(wit is None, "C19-E1", site, "AABB.is_empty is not `some axis has mini >= maxi`",
                       (f"for the box mini={wit[0]['_p1']}, maxi={wit[0]['_p2']} the predicate answers {not wit[1]} but the box is "
@@ -982,21 +1816,72 @@ def e1_empty_box(ctx):
     fn = repo.func(SAMP, "sample_AABB")
     site = ctx.site(SAMP, fn)
     box_p = au.params(fn)[0]
-    guard_i = None
-    for i, st in enumerate(fn.body):
-        if isinstance(st, ast.If) and isinstance(st.test, ast.Call) and au.call_tail(st.test) == "is_empty" \
-                and isinstance(st.test.func, ast.Attribute) and isinstance(st.test.func.value, ast.Name) and st.test.func.value.id == box_p:
-            guard_i = i
-            break
-    if guard_i is None:
-        _lost(ctx, "C19-E1", site, "sample_AABB: top-level `if box.is_empty(): raise` not found",
-              "an empty box (e.g. an empty intersection) has no admissible sample: the sampler must refuse, in both modes")
+    fl = F.Flow(fn)
+    from ..rules.c1120_util import paths
+    from .. import decide
+
+    def is_e(n):
+        return isinstance(n, ast.Call) and au.call_tail(n) == "is_empty" and isinstance(n.func, ast.Attribute) \
+            and isinstance(n.func.value, ast.Name) and n.func.value.id == box_p
+
+    def atom(n):
+        return "E" if is_e(n) else au.canon_test(n)
+    try:
+        allp = paths(fn.body)
+    except order.Unsupported as e:
+        ctx.undecided("C19-E1", site, "sample_AABB: the empty-box test cannot be followed", str(e))
         return
-    g = fn.body[guard_i]
-    ctx.check(bool(g.body) and isinstance(g.body[-1], ast.Raise) and not g.orelse, "C19-E1", ctx.site(SAMP, fn, g),
-              "sample_AABB: the empty-box test does not end in a raise", f"`{au.src(g)[:100]}`", note="empty box raises")
+    tests = {}
+    for p in allp:
+        for tst, pol, kind in p.guards:
+            if kind == "if" and id(tst) not in tests:
+                tests[id(tst)] = fl.resolve(tst, at=tst, keep=(box_p,))
+    e_tests = [t for t in tests.values() if any(is_e(n) for n in ast.walk(t))]
+    if not e_tests:
+        present = any(au.call_tail(c) == "is_empty" for c in au.calls(fn))
+        called = [c for c in au.calls(fn) if isinstance(c.func, ast.Name) and any(isinstance(a, ast.Name) and a.id == box_p for a in c.args)
+                  and ctx.repo.resolve_func(SAMP, c.func.id)]
+        inline = [t for t in tests.values() if any(isinstance(n, ast.Attribute) and isinstance(n.value, ast.Name) and n.value.id == box_p
+                                                   and n.attr not in ("dim",) for n in ast.walk(t))]
+        if present or called or inline:
+            ctx.undecided("C19-E1", site, "sample_AABB: the empty-box test is not an `if box.is_empty(): raise` of the function",
+                          "the test is written in a form (or delegated to a helper) the rule does not follow")
+        else:
+            ctx.fail("C19-E1", site, "sample_AABB: top-level `if box.is_empty(): raise` not found",
+                     "is_empty() is never consulted: an empty box (e.g. an empty intersection) has no admissible sample, the sampler must refuse, in both modes")
+        return
+    leak = None
+    try:
+        for p in allp:
+            if p.end == "raise":
+                continue
+            gs = [(tests[id(tst)], pol) for tst, pol, kind in p.guards if kind == "if"]
+            names = set()
+            for t, pol in gs:
+                decide.atoms_of(t, atom, names)
+            others = sorted(names - {"E"})
+            for vals in itertools.product((False, True), repeat=len(others)):
+                env = dict(zip(others, vals), E=True)
+                if all(decide.ev(t, env, atom) == pol for t, pol in gs):
+                    leak = (p, {k: v for k, v in env.items() if k != "E"})
+                    break
+            if leak:
+                break
+    except decide.Unknown as e:
+        ctx.undecided("C19-E1", site, "sample_AABB: the empty-box test cannot be followed", str(e))
+        return
+    gnode = next(tst for p in allp for tst, pol, kind in p.guards if kind == "if" and any(is_e(n) for n in ast.walk(tests[id(tst)])))
+    ctx.check(leak is None, "C19-E1", ctx.site(SAMP, fn, gnode), "sample_AABB: an empty box is not refused on every path",
+              f"with box.is_empty() true" + (f" and {leak[1]}" if leak and leak[1] else "") + " the function reaches "
+              f"`{au.src(leak[0].stmts[-1])[:80] if leak and leak[0].stmts else 'its end'}` without raising: an empty box (e.g. an empty "
+              f"intersection) has no admissible sample, the sampler must refuse, in both modes", note="every path of an empty box raises")
+    # the test precedes every draw and every return
+    top = next((i for i, st in enumerate(fn.body) if any(n is gnode for n in ast.walk(st)) or
+                (isinstance(st, (ast.Assign, ast.AnnAssign)) and any(is_e(n) for n in ast.walk(st)))), None)
     draw_tails = {"random", "linspace", "meshgrid", "uniform", "normal", "rand", "random_sample"}
-    early = [st for st in fn.body[:guard_i] if any(au.call_tail(c) in draw_tails for c in au.calls(st))
-             or (isinstance(st, ast.If) and any(isinstance(x, ast.Return) for x in au.stmts(st.body + st.orelse)))]
-    ctx.check(not early, "C19-E1", ctx.site(SAMP, fn, g), "sample_AABB: points are drawn or returned before the empty-box test",
+    first_guard = next((i for i, st in enumerate(fn.body) if any(n is gnode for n in ast.walk(st))), len(fn.body))
+    early = [st for st in fn.body[:first_guard] if any(au.call_tail(c) in draw_tails for c in au.calls(st))
+             or (isinstance(st, ast.If) and any(isinstance(x, ast.Return) for x in au.stmts(st.body + st.orelse)))
+             or isinstance(st, ast.Return)]
+    ctx.check(not early, "C19-E1", ctx.site(SAMP, fn, gnode), "sample_AABB: points are drawn or returned before the empty-box test",
               f"`{au.src(early[0])[:100] if early else ''}`", note="empty-box test precedes every draw and mode branch")
